@@ -8,7 +8,10 @@
        the channel assembling it - for a message that was routed this is the moment its publish COMPLETED;
      - g_pub : for every message id the channel (c, h) whose basic.publish allocated it.
    Message ids are allocated when basic.publish arrives, so "n <= u2" for n = done_at u1 says: the publish of u1 was complete
-   before the publish of u2 began.  On ONE channel this holds for any two messages u1 < u2 that were both routed (part 5).
+   before the publish of u2 began.  On ONE channel this holds for any two messages u1 < u2 that were both routed (part 5:
+   cur_step - a channel's current message is set only by basic.publish on that channel; same_channel_sequential;
+   first_deliveries_same_channel).  Every waiting message, unsettled delivery and store key has a completion point
+   (waiting_has_done_at).
 
    Invariant (FQ, every reachable state, every label incl. restart): the waiting list of every queue object is
        returned ++ fresh
@@ -19,8 +22,8 @@
 From Coq Require Import List String NArith ZArith Bool Lia ZifyBool ZifyN Sorted Permutation.
 From RecordUpdate Require Import RecordUpdate.
 Import ListNotations.
-From GMQ Require Import Broker.Model Proofs.BrokerFrames Proofs.BrokerTags Proofs.BrokerChanInv Proofs.BrokerQueueInv
-  Proofs.BrokerReady Proofs.BrokerHeld Proofs.BrokerRestart Proofs.BrokerHolder.
+From GMQ Require Import Broker.Model Proofs.BrokerFrames Proofs.BrokerTags Proofs.BrokerConfirm Proofs.BrokerConfirmHist
+  Proofs.BrokerChanInv Proofs.BrokerQueueInv Proofs.BrokerReady Proofs.BrokerHeld Proofs.BrokerRestart Proofs.BrokerHolder.
 Open Scope N_scope.
 
 (* ================================================================== *)
@@ -156,12 +159,16 @@ Qed.
 Section Inv.
 Variables (g : ghost) (n : N).
 
-Definition shapeN (qid : N) (rdy : list N) : Prop := shape g qid rdy /\ forall x, In x rdy -> x < n.
+Definition DN (x : N) : Prop := done_at g x <> None.
+Definition shapeN (qid : N) (rdy : list N) : Prop := shape g qid rdy /\ forall x, In x rdy -> x < n /\ DN x.
 Definition Pq (qu : queue) : Prop := shapeN (q_id qu) (q_ready qu).
-Definition P2 (c h : N) (ch : channel) : Prop := forall e, In e (ch_unacked ch) -> D g (u_qid e) (u_msg e) /\ u_msg e < n.
-Definition IV (s : state) : Prop := allq Pq s /\ allch P2 s.
+Definition P2 (c h : N) (ch : channel) : Prop := forall e, In e (ch_unacked ch) -> D g (u_qid e) (u_msg e) /\ u_msg e < n /\ DN (u_msg e).
+(* every key of the message store belongs to a message whose publish completed *)
+Definition ST (s : state) : Prop := forall k, In k (store s) -> DN (fst k).
+Definition IV2 (s : state) : Prop := allq Pq s /\ allch P2 s.
+Definition IV (s : state) : Prop := allq Pq s /\ allch P2 s /\ ST s.
 (* what a message must satisfy when its publish completes *)
-Definition Gu (u : N) : Prop := (forall qid, ~ D g qid u) /\ (forall m, done_at g u = Some m -> n <= m) /\ u < n.
+Definition Gu (u : N) : Prop := (forall qid, ~ D g qid u) /\ (forall m, done_at g u = Some m -> n <= m) /\ u < n /\ DN u.
 
 Lemma Pq_keep qu qu' : qk qu' = qk qu -> Pq qu -> Pq qu'.
 Proof. unfold qk, Pq. intros E. injection E as E1 E2. rewrite E1, E2. auto. Qed.
@@ -172,9 +179,9 @@ Proof.
   exists [], []. split; [reflexivity|]. split; [intros x []|]. split; [intros x []|constructor].
 Qed.
 
-Lemma shapeN_requeue qid rdy u : shapeN qid rdy -> D g qid u -> u < n -> shapeN qid (u :: rdy).
+Lemma shapeN_requeue qid rdy u : shapeN qid rdy -> D g qid u -> u < n -> DN u -> shapeN qid (u :: rdy).
 Proof.
-  intros [(ret & fresh & E & A & B & C) Hb] Hd Hu. split.
+  intros [(ret & fresh & E & A & B & C) Hb] Hd Hu Hdn. split.
   - exists (u :: ret), fresh. split; [rewrite E; reflexivity|]. split; [|split; assumption].
     intros x [<-|Hx]; auto.
   - intros x [<-|Hx]; auto.
@@ -190,7 +197,7 @@ Qed.
 
 Lemma shapeN_push qid rdy u : shapeN qid rdy -> Gu u -> shapeN qid (rdy ++ [u]).
 Proof.
-  intros [(ret & fresh & E & A & B & C) Hb] (G1 & G2 & G3). split.
+  intros [(ret & fresh & E & A & B & C) Hb] (G1 & G2 & G3 & G4). split.
   - exists ret, (fresh ++ [u]). split; [rewrite E, app_assoc; reflexivity|]. split; [exact A|]. split.
     + intros x Hx. apply in_app_or in Hx. destruct Hx as [Hx|[<-|[]]]; [apply B; exact Hx|apply G1].
     + apply FOP_app_one; [exact C|]. apply Forall_forall. intros a Ha m Hm. specialize (G2 m Hm).
@@ -299,10 +306,10 @@ Proof.
 Qed.
 
 (* the delivery bookkeeping: tag counter, then the new entry *)
-Lemma AC_deliver s c h d (e : unacked) : D g (u_qid e) (u_msg e) -> u_msg e < n -> allch P2 s ->
+Lemma AC_deliver s c h d (e : unacked) : D g (u_qid e) (u_msg e) -> u_msg e < n -> DN (u_msg e) -> allch P2 s ->
   allch P2 (upd_chan (upd_chan s c h (fun ch => ch <| ch_dtag := d |>)) c h (fun ch => ch <| ch_unacked ::= fun l => l ++ [e] |>)).
 Proof.
-  intros Hd Hn H. apply allch_upd_chan; [|keep2; exact H].
+  intros Hd Hn Hdn H. apply allch_upd_chan; [|keep2; exact H].
   intros ch0 H0 x Hx. cbn in Hx. apply in_app_or in Hx. destruct Hx as [Hx|[<-|[]]]; auto.
 Qed.
 
@@ -329,11 +336,11 @@ Proof.
 Qed.
 
 Lemma AQ_queue_requeue s qn u :
-  (forall qu, get_queue s qn = Some qu -> D g (q_id qu) u /\ u < n) -> allq Pq s -> allq Pq (queue_requeue s qn u).
+  (forall qu, get_queue s qn = Some qu -> D g (q_id qu) u /\ u < n /\ DN u) -> allq Pq s -> allq Pq (queue_requeue s qn u).
 Proof.
   intros Hd H. unfold queue_requeue. destruct (get_queue s qn) as [qu|] eqn:Eq; auto.
   destruct (negb (q_active qu)); auto.
-  pose proof (allq_get _ _ _ _ H Eq) as Hq. destruct (Hd qu eq_refl) as [D1 D2].
+  pose proof (allq_get _ _ _ _ H Eq) as Hq. destruct (Hd qu eq_refl) as (D1 & D2 & D3).
   apply allq_set_queue.
   - eapply Pq_keep; [apply q_call_consumers|]. change (shapeN (q_id qu) (u :: q_ready qu)). apply shapeN_requeue; auto.
   - sq. eapply allq_same_queues; [apply store_writeback_frame|exact H].
@@ -367,9 +374,9 @@ Qed.
 Lemma AQ_chan_ackmsg s u : allq Pq s -> allq Pq (chan_ackmsg s u).
 Proof. intros H. unfold chan_ackmsg. destruct (origin_queue s u); [apply AQ_queue_ackmsg; auto|sq]. Qed.
 
-Lemma AQ_chan_rejectmsg s e r : D g (u_qid e) (u_msg e) -> u_msg e < n -> allq Pq s -> allq Pq (chan_rejectmsg s e r).
+Lemma AQ_chan_rejectmsg s e r : D g (u_qid e) (u_msg e) -> u_msg e < n -> DN (u_msg e) -> allq Pq s -> allq Pq (chan_rejectmsg s e r).
 Proof.
-  intros D1 D2 H. unfold chan_rejectmsg. destruct (origin_queue s e) as [q0|] eqn:Eo.
+  intros D1 D2 D3 H. unfold chan_rejectmsg. destruct (origin_queue s e) as [q0|] eqn:Eo.
   - apply origin_queue_some in Eo. destruct Eo as [Eg Ei].
     destruct r; [|apply AQ_queue_ackmsg; auto]. apply AQ_queue_requeue; auto.
     intros qu Hq. rewrite Eg in Hq. inversion Hq; subst. rewrite Ei. auto.
@@ -384,9 +391,9 @@ Proof.
   destruct mult.
   - cbn [fst]. apply fold_left_preserves; [intros; apply AQ_dec_qos; auto|].
     apply fold_left_preserves_in; auto. intros s0 a Ha H0.
-    apply filter_In in Ha. destruct Ha as [Ha _]. apply (proj1 (sort_desc_perm _ _)) in Ha. destruct (Hp a Ha) as [D1 D2].
+    apply filter_In in Ha. destruct Ha as [Ha _]. apply (proj1 (sort_desc_perm _ _)) in Ha. destruct (Hp a Ha) as (D1 & D2 & D3).
     apply AQ_chan_rejectmsg; auto. sq.
-  - destruct (find _ _) as [u|] eqn:Ef; cbn [fst]; auto. apply find_some in Ef. destruct Ef as [Ef _]. destruct (Hp u Ef) as [D1 D2].
+  - destruct (find _ _) as [u|] eqn:Ef; cbn [fst]; auto. apply find_some in Ef. destruct Ef as [Ef _]. destruct (Hp u Ef) as (D1 & D2 & D3).
     apply AQ_dec_qos. apply AQ_chan_rejectmsg; auto. sq.
 Qed.
 
@@ -399,9 +406,203 @@ Proof.
   - destruct (find _ _); cbn [fst]; auto. apply AQ_dec_qos. apply AQ_chan_ackmsg. sq.
 Qed.
 
+(* ---- the message store ---- *)
+Lemma ST_same s s' : st_add s' = st_add s -> st_db s' = st_db s -> ST s -> ST s'.
+Proof. unfold ST, store. intros -> ->. auto. Qed.
+Lemma ST_FR s s' : FR s s' -> ST s -> ST s'.
+Proof. intros E. destruct (nexts_FR _ _ E) as (_ & _ & _ & A & B). apply ST_same; assumption. Qed.
+Lemma sdb_set_chan s c h ch : st_add (set_chan s c h ch) = st_add s /\ st_db (set_chan s c h ch) = st_db s.
+Proof. unfold set_chan. destruct (get_conn s c); auto. Qed.
+Lemma sdb_upd_chan s c h f : st_add (upd_chan s c h f) = st_add s /\ st_db (upd_chan s c h f) = st_db s.
+Proof. unfold upd_chan. destruct (get_chan s c h); [apply sdb_set_chan|auto]. Qed.
+Lemma sdb_upd_msg s u f : st_add (upd_msg s u f) = st_add s /\ st_db (upd_msg s u f) = st_db s.
+Proof. unfold upd_msg. destruct (get_msg s u); auto. Qed.
+Lemma sdb_upd_queue s q f : st_add (upd_queue s q f) = st_add s /\ st_db (upd_queue s q f) = st_db s.
+Proof. unfold upd_queue. destruct (get_queue s q); auto. Qed.
+Lemma ST_upd_chan s c h f : ST s -> ST (upd_chan s c h f).
+Proof. apply ST_same; apply sdb_upd_chan. Qed.
+Lemma ST_upd_msg s u f : ST s -> ST (upd_msg s u f).
+Proof. apply ST_same; apply sdb_upd_msg. Qed.
+
+Lemma ST_queue_requeue s qn u : DN u -> ST s -> ST (queue_requeue s qn u).
+Proof.
+  intros Hu H. unfold queue_requeue. destruct (get_queue s qn) as [qu|]; auto. destruct (negb (q_active qu)); auto.
+  assert (H1 : ST (store_writeback s qn u (q_durable qu))).
+  { intros k Hk. apply store_writeback_store in Hk. destruct Hk as [Hk| ->]; [apply H; exact Hk|exact Hu]. }
+  eapply ST_same; [| |exact H1]; cbn; apply sdb_upd_msg.
+Qed.
+
+Lemma ST_chan_rejectmsg s e r : DN (u_msg e) -> ST s -> ST (chan_rejectmsg s e r).
+Proof.
+  intros Hu H. unfold chan_rejectmsg. destruct (origin_queue s e).
+  - destruct r; [apply ST_queue_requeue; auto|eapply ST_FR; [apply FR_queue_ackmsg|exact H]].
+  - eapply ST_same; [| |exact H]; reflexivity.
+Qed.
+
+Lemma ST_handle_reject cfg s c h tag mult requeue cls mth :
+  allch P2 s -> ST s -> ST (fst (handle_reject cfg s c h tag mult requeue cls mth)).
+Proof.
+  intros H2 H. unfold handle_reject. destruct (get_chan s c h) as [ch|] eqn:Ech; auto.
+  pose proof (H2 _ _ _ Ech) as Hp.
+  destruct mult.
+  - cbn [fst]. apply fold_left_preserves; [intros s0 a H0; eapply ST_FR; [apply FR_dec_qos|exact H0]|].
+    apply fold_left_preserves_in; auto. intros s0 a Ha H0.
+    apply filter_In in Ha. destruct Ha as [Ha _]. apply (proj1 (sort_desc_perm _ _)) in Ha. destruct (Hp a Ha) as (_ & _ & D3).
+    apply ST_chan_rejectmsg; auto. apply ST_upd_chan. exact H0.
+  - destruct (find _ _) as [u|] eqn:Ef; cbn [fst]; auto. apply find_some in Ef. destruct Ef as [Ef _]. destruct (Hp u Ef) as (_ & _ & D3).
+    eapply ST_FR; [apply FR_dec_qos|]. apply ST_chan_rejectmsg; auto. apply ST_upd_chan. exact H.
+Qed.
+
+Lemma ST_handle_ack cfg s c h tag mult : ST s -> ST (fst (handle_ack cfg s c h tag mult)).
+Proof.
+  intros H. unfold handle_ack. destruct (get_chan s c h) as [ch|]; auto.
+  destruct mult.
+  - cbn [fst]. apply fold_left_preserves; [intros s0 a H0; eapply ST_FR; [apply FR_dec_qos|exact H0]|].
+    apply fold_left_preserves; auto. intros s0 a H0. eapply ST_FR; [apply FR_chan_ackmsg|]. apply ST_upd_chan. exact H0.
+  - destruct (find _ _); cbn [fst]; auto. eapply ST_FR; [apply FR_dec_qos|]. eapply ST_FR; [apply FR_chan_ackmsg|]. apply ST_upd_chan. exact H.
+Qed.
+
+Lemma ST_channel_close cfg s c h : allch P2 s -> ST s -> ST (channel_close cfg s c h).
+Proof.
+  intros H2 H. unfold channel_close. destruct (get_chan s c h) as [ch|]; auto.
+  apply ST_upd_chan.
+  set (s2 := upd_chan (fold_left (fun s cm => consumer_stop s c h (c_tag cm)) (ch_consumers ch) s) c h
+                     (fun ch => ch <| ch_consumers := [] |>)).
+  assert (A1 : ST s2) by (subst s2; apply ST_upd_chan; apply fold_left_preserves; auto; intros s0 a H0; eapply ST_FR; [apply FR_consumer_stop|exact H0]).
+  assert (A2 : allch P2 s2) by (subst s2; keep2; apply fold_left_preserves; auto; intros; apply AC_consumer_stop; auto).
+  destruct (0 <? h); auto. apply ST_handle_reject; auto.
+Qed.
+
+Lemma ST_store_purge s qn : ST s -> ST (store_purge s qn).
+Proof.
+  intros H k Hk. apply H. unfold store_purge, store in *. cbn [st_add st_db set] in Hk. apply in_app_or in Hk. apply in_or_app.
+  destruct Hk as [Hk|Hk]; [left; exact Hk|right]. apply filter_In in Hk. apply Hk.
+Qed.
+
+Lemma ST_vhost_delete_queue b s qn iu ie : ST s -> ST (fst (fst (vhost_delete_queue b s qn iu ie))).
+Proof.
+  intros H. unfold vhost_delete_queue. destruct (get_queue s qn) as [qu|] eqn:Eq; auto.
+  destruct (_ || _).
+  - cbn [fst]. destruct b; [|exact H]. eapply ST_same; [| |exact H]; reflexivity.
+  - pose proof (FR_cancel_fold (q_consumers qu) s []) as Hf.
+    destruct (fold_left _ (q_consumers qu) (s, [])) as [s1 e1]. cbn [fst] in *.
+    assert (H1 : ST s1) by (eapply ST_FR; eauto).
+    assert (H2 : ST (if q_durable qu then store_purge s1 qn else s1)) by (destruct (q_durable qu); [apply ST_store_purge|]; exact H1).
+    eapply ST_same; [| |exact H2]; reflexivity.
+Qed.
+
+Lemma ST_queue_push s qn u : Gu u -> ST s -> ST (queue_push s qn u).
+Proof.
+  intros (_ & _ & _ & Hu) H.
+  destruct (queue_push_effect s qn u) as [->|(qu & _ & _ & _ & _ & _ & _ & Edb & Eadd & _)]; [exact H|].
+  intros k Hk. unfold store in Hk. rewrite Edb in Hk. destruct Eadd as [Ea|Ea]; rewrite Ea in Hk.
+  - apply H. exact Hk.
+  - rewrite <- app_assoc in Hk. apply in_app_or in Hk. destruct Hk as [Hk|Hk]; [apply H; apply in_or_app; left; exact Hk|].
+    destruct Hk as [<-|Hk]; [exact Hu|apply H; apply in_or_app; right; exact Hk].
+Qed.
+
+Lemma ST_route_and_push fx s c h u : Gu u -> ST s -> ST (fst (route_and_push fx s c h u)).
+Proof.
+  intros Hu H. unfold route_and_push. destruct (get_msg s u) as [m|]; auto.
+  destruct (alookup _ _ _) as [ex|]; cbn [fst]; [|eapply ST_FR; [apply FR_add_confirm|exact H]].
+  destruct (matched_queues _ _ _) as [|q1 qs]; cbn [fst]; [eapply ST_FR; [apply FR_add_confirm|exact H]|].
+  apply fold_left_preserves.
+  - intros s0 qn H0. assert (H1 : ST (queue_push s0 qn u)) by (apply ST_queue_push; auto). unfold push_one.
+    destruct (get_msg _ u); [|exact H1]. destruct (_ && _ && _); [|exact H1]. eapply ST_FR; [apply FR_add_confirm|exact H1].
+  - destruct (_ && _)%bool; [apply ST_upd_msg|]; exact H.
+Qed.
+
+Lemma ST_finish_publish fx s c h u : Gu u -> ST s -> ST (fst (finish_publish fx s c h u)).
+Proof.
+  intros Hu H. unfold finish_publish. pose proof (ST_route_and_push fx s c h u Hu H) as H1.
+  destruct (route_and_push fx s c h u) as [s1 e1]. cbn [fst] in *. destruct (fx_clear_current fx); [apply ST_upd_chan|]; exact H1.
+Qed.
+
+Lemma ST_handle_method cfg fx s c h m : is_get m = false -> allch P2 s -> ST s -> ST (fst (fst (handle_method cfg fx s c h m))).
+Proof.
+  intros Hm H2 H. unfold handle_method.
+  destruct (get_chan s c h) as [ch|] eqn:Hch; [|exact H].
+  assert (Hset : forall ch', ST (set_chan s c h ch')) by (intros ch'; eapply ST_same; [| |exact H]; apply sdb_set_chan).
+  destruct m; try discriminate; unfold ok, refuse.
+  - (* MChannelOpen *) destruct (ch_status ch); cbn [fst]; auto.
+  - cbn [fst]. apply ST_channel_close; auto.
+  - cbn [fst]. destruct (fx_closeok_releases fx); [apply ST_channel_close; auto|auto].
+  - cbn [fst]. destruct (Bool.eqb _ _); auto. destruct a; auto.
+  - destruct (extype_of type); [|exact H].
+    repeat match goal with |- context [if ?b then _ else _] => destruct b end; cbn [fst]; auto.
+    all: repeat match goal with |- context [match ?x with _ => _ end] => destruct x end; cbn [fst]; auto.
+    all: try (eapply ST_same; [| |exact H]; reflexivity).
+  - destruct (fx_not_impl fx); exact H.
+  - (* MQDeclare *)
+    destruct (seqb name ""); [exact H|].
+    destruct (queue_found s name) as [qu|].
+    + repeat match goal with |- context [if ?b then _ else _] => destruct b end; cbn [fst]; auto.
+    + destruct passive; [destruct nowait; exact H|]. cbn [fst]. eapply ST_same; [| |exact H]; reflexivity.
+  - destruct (alookup _ _ _); [|exact H]. destruct (seqb ex ""); [exact H|].
+    destruct (queue_found s q); [|exact H]. destruct (locked _ _); [exact H|]. destruct (bad_xmatch _); [exact H|]. destruct (extype_eqb _ ExTopic && bad_pattern _)%bool; [exact H|]. cbn [fst].
+    eapply ST_same; [| |exact H]; reflexivity.
+  - destruct (alookup _ _ _); [|exact H]. destruct (queue_found s q); [|exact H]. destruct (locked _ _); [exact H|]. destruct (bad_xmatch _); [exact H|]. destruct (extype_eqb _ ExTopic && bad_pattern _)%bool; [exact H|]. cbn [fst].
+    eapply ST_same; [| |exact H]; reflexivity.
+  - (* MQPurge *)
+    destruct (queue_found s q) as [qu|]; [|exact H]. destruct (locked _ _); [exact H|]. cbn [fst].
+    assert (H1 : ST (if q_durable qu then store_purge s q else s)) by (destruct (q_durable qu); [apply ST_store_purge|]; exact H).
+    eapply ST_same; [| |exact H1]; reflexivity.
+  - (* MQDelete *)
+    destruct (queue_found s q); [|exact H]. destruct (locked _ _); [exact H|].
+    pose proof (ST_vhost_delete_queue (negb (fx_delete_checks_first fx)) s q ifunused ifempty H) as Hd.
+    destruct (vhost_delete_queue _ s q ifunused ifempty) as [[s1 e1] r1]. cbn [fst] in *.
+    destruct r1; exact Hd.
+  - (* MQos *)
+    cbn [fst]. eapply ST_FR; [apply FR_wake_consumers|].
+    destruct (cfg_rabbit cfg); [destruct glob; auto|]. destruct glob; auto.
+    destruct (get_conn s c); [|exact H]. eapply ST_same; [| |exact H]; reflexivity.
+  - (* MPublish *)
+    destruct imm; [exact H|]. destruct (alookup _ _ _); [|exact H].
+    destruct (if ch_confirm ch then _ else _) as [conf ch']. cbn [fst].
+    eapply ST_same; [| |exact H]; [rewrite (proj1 (sdb_set_chan _ _ _ _))|rewrite (proj2 (sdb_set_chan _ _ _ _))]; reflexivity.
+  - (* MConsume *)
+    destruct (queue_found s q) as [qu|]; [|exact H].
+    destruct (fx_excl_owner fx && locked qu c); [exact H|].
+    destruct (find_consumer ch _); [exact H|].
+    destruct (_ && _)%bool; cbn [fst].
+    + eapply ST_same; [| |exact H]; reflexivity.
+    + eapply ST_same; [| |exact H]; [rewrite (proj1 (sdb_set_chan _ _ _ _))|rewrite (proj2 (sdb_set_chan _ _ _ _))];
+        destruct (seqb tag ""%string); reflexivity.
+  - (* MCancel *)
+    destruct (find_consumer ch tag); [|exact H]. cbn [fst]. apply ST_upd_chan. apply ST_upd_chan.
+    eapply ST_FR; [apply FR_consumer_stop|exact H].
+  - pose proof (ST_handle_ack cfg s c h tag mult H) as Ha.
+    destruct (handle_ack cfg s c h tag mult) as [s1 e1]. exact Ha.
+  - pose proof (ST_handle_reject cfg s c h tag mult requeue 60 120 H2 H) as Ha.
+    destruct (handle_reject cfg s c h tag mult requeue 60 120) as [s1 e1]. exact Ha.
+  - pose proof (ST_handle_reject cfg s c h tag false requeue 60 90 H2 H) as Ha.
+    destruct (handle_reject cfg s c h tag false requeue 60 90) as [s1 e1]. exact Ha.
+  - exact H.
+  - cbn [fst]. auto.
+  - destruct (fx_not_impl fx); exact H.
+  - exact H.
+  - exact H.
+  - destruct good; [cbn [fst]; eapply ST_FR; [apply FR_set_stage|exact H]|exact H].
+  - destruct within; [cbn [fst]; eapply ST_FR; [apply FR_set_stage|exact H]|exact H].
+  - destruct vhost_ok; [cbn [fst]; eapply ST_FR; [apply FR_set_stage|exact H]|exact H].
+Qed.
+
+Lemma ST_consumer_turn cfg fx s c h tag : ST s -> ST (fst (consumer_turn cfg fx s c h tag)).
+Proof.
+  intros H. destruct (consumer_turn_effect cfg fx s c h tag) as [[E _]|(ch & cm & qu & u & rest & dtag & _ & _ & _ & _ & Dv & _)].
+  - eapply ST_FR; eauto.
+  - eapply ST_same; [apply (dv_add _ _ _ _ _ _ _ _ Dv)|apply (dv_db _ _ _ _ _ _ _ _ Dv)|exact H].
+Qed.
+Lemma ST_get cfg fx s c h q noack : ST s -> ST (fst (fst (handle_method cfg fx s c h (MGet q noack)))).
+Proof.
+  intros H. destruct (get_effect cfg fx s c h q noack) as [[E _]|(qu & u & rest & dtag & _ & _ & _ & Dv & _)].
+  - eapply ST_FR; eauto.
+  - eapply ST_same; [apply (dv_add _ _ _ _ _ _ _ _ Dv)|apply (dv_db _ _ _ _ _ _ _ _ Dv)|exact H].
+Qed.
+
 Lemma IV_channel_close cfg s c h : IV s -> IV (channel_close cfg s c h).
 Proof.
-  intros [H H2]. split; [|apply AC_channel_close; exact H2].
+  intros (H & H2 & H3). split; [|split; [apply AC_channel_close; exact H2|apply ST_channel_close; assumption]].
   unfold channel_close. destruct (get_chan s c h) as [ch|]; auto.
   same_queues.
   set (s2 := upd_chan (fold_left (fun s cm => consumer_stop s c h (c_tag cm)) (ch_consumers ch) s) c h
@@ -430,7 +631,7 @@ Proof.
 Qed.
 
 Lemma IV_vhost_delete_queue b s qn iu ie : IV s -> IV (fst (fst (vhost_delete_queue b s qn iu ie))).
-Proof. intros [H H2]. split; [apply AQ_vhost_delete_queue; auto|apply AC_vhost_delete_queue; auto]. Qed.
+Proof. intros (H & H2 & H3). split; [apply AQ_vhost_delete_queue; auto|split; [apply AC_vhost_delete_queue; auto|apply ST_vhost_delete_queue; auto]]. Qed.
 
 Lemma AQ_queue_loop_turn s qn : allq Pq s -> allq Pq (queue_loop_turn s qn).
 Proof.
@@ -465,7 +666,7 @@ Qed.
 
 Lemma IV_finish_publish fx s c h u : Gu u -> IV s -> IV (fst (finish_publish fx s c h u)).
 Proof.
-  intros Hu [H H2]. split; [|apply AC_finish_publish; exact H2].
+  intros Hu (H & H2 & H3). split; [|split; [apply AC_finish_publish; exact H2|apply ST_finish_publish; assumption]].
   unfold finish_publish. pose proof (AQ_route_and_push fx s c h u Hu H) as H1.
   destruct (route_and_push fx s c h u) as [s1 e1]. cbn [fst] in *. sq.
 Qed.
@@ -506,9 +707,9 @@ Proof.
     + destruct passive; [destruct nowait; exact H|]. cbn [fst]. repeat same_conns. auto.
   - (* MQBind *)
     destruct (alookup _ _ _); [|exact H]. destruct (seqb ex ""); [exact H|].
-    destruct (queue_found s q); [|exact H]. destruct (locked _ _); [exact H|]. destruct (bad_xmatch _); [exact H|]. cbn [fst]. same_conns. auto.
+    destruct (queue_found s q); [|exact H]. destruct (locked _ _); [exact H|]. destruct (bad_xmatch _); [exact H|]. destruct (extype_eqb _ ExTopic && bad_pattern _)%bool; [exact H|]. cbn [fst]. same_conns. auto.
   - (* MQUnbind *)
-    destruct (alookup _ _ _); [|exact H]. destruct (queue_found s q); [|exact H]. destruct (locked _ _); [exact H|]. destruct (bad_xmatch _); [exact H|]. cbn [fst]. same_conns. auto.
+    destruct (alookup _ _ _); [|exact H]. destruct (queue_found s q); [|exact H]. destruct (locked _ _); [exact H|]. destruct (bad_xmatch _); [exact H|]. destruct (extype_eqb _ ExTopic && bad_pattern _)%bool; [exact H|]. cbn [fst]. same_conns. auto.
   - (* MQPurge *)
     destruct (queue_found s q) as [qu|]; [|exact H]. destruct (locked _ _); [exact H|]. cbn [fst]. unfold store_purge.
     repeat (first [assumption | same_conns | match goal with |- allch _ (if ?b then _ else _) => destruct b end]).
@@ -558,12 +759,12 @@ Qed.
 
 Lemma AQ_handle_method cfg fx s c h m : is_get m = false -> IV s -> allq Pq (fst (fst (handle_method cfg fx s c h m))).
 Proof.
-  intros Hm [H H2]. unfold handle_method.
+  intros Hm (H & H2 & H3). unfold handle_method.
   destruct (get_chan s c h) as [ch|] eqn:Hch; [|exact H].
   destruct m; try discriminate; unfold ok, refuse.
   - (* MChannelOpen *) destruct (ch_status ch); qm_leaf.
-  - (* MChannelClose *) cbn [fst]. apply IV_channel_close. split; assumption.
-  - (* MChannelCloseOk *) cbn [fst]. destruct (fx_closeok_releases fx); [apply IV_channel_close; split; assumption|]; sq.
+  - (* MChannelClose *) cbn [fst]. apply IV_channel_close. split; [assumption|split; assumption].
+  - (* MChannelCloseOk *) cbn [fst]. destruct (fx_closeok_releases fx); [apply IV_channel_close; (split; [assumption|split; assumption])|]; sq.
   - (* MChannelFlow *) cbn [fst]. destruct (Bool.eqb _ _); [exact H|]. destruct a; sq.
   - (* MExDeclare *) destruct (extype_of type); [|exact H].
     repeat match goal with |- context [if ?b then _ else _] => destruct b end; qm_leaf.
@@ -577,9 +778,9 @@ Proof.
       same_queues. apply allq_set_queue; [apply Pq_nil; reflexivity|sq].
   - (* MQBind *)
     destruct (alookup _ _ _); [|exact H]. destruct (seqb ex ""); [exact H|].
-    destruct (queue_found s q); [|exact H]. destruct (locked _ _); [exact H|]. destruct (bad_xmatch _); [exact H|]. cbn [fst]. sq.
+    destruct (queue_found s q); [|exact H]. destruct (locked _ _); [exact H|]. destruct (bad_xmatch _); [exact H|]. destruct (extype_eqb _ ExTopic && bad_pattern _)%bool; [exact H|]. cbn [fst]. sq.
   - (* MQUnbind *)
-    destruct (alookup _ _ _); [|exact H]. destruct (queue_found s q); [|exact H]. destruct (locked _ _); [exact H|]. destruct (bad_xmatch _); [exact H|]. cbn [fst]. sq.
+    destruct (alookup _ _ _); [|exact H]. destruct (queue_found s q); [|exact H]. destruct (locked _ _); [exact H|]. destruct (bad_xmatch _); [exact H|]. destruct (extype_eqb _ ExTopic && bad_pattern _)%bool; [exact H|]. cbn [fst]. sq.
   - (* MQPurge *)
     destruct (queue_found s q) as [qu|] eqn:Ef; [|exact H]. destruct (locked _ _); [exact H|]. cbn [fst].
     apply allq_set_queue; [apply Pq_nil; reflexivity|]. unfold store_purge. sq.
@@ -623,7 +824,7 @@ Proof.
 Qed.
 
 Lemma IV_handle_method cfg fx s c h m : is_get m = false -> IV s -> IV (fst (fst (handle_method cfg fx s c h m))).
-Proof. intros Hm H. split; [apply AQ_handle_method; auto|apply AC_handle_method; [exact Hm|apply H]]. Qed.
+Proof. intros Hm H. split; [apply AQ_handle_method; auto|split; [apply AC_handle_method; [exact Hm|apply H]|apply ST_handle_method; [exact Hm|apply H|apply H]]]. Qed.
 
 (* ---- teardown ---- *)
 Lemma IV_delete_fold b l : forall s evs, IV s ->
@@ -643,12 +844,12 @@ Proof.
   clearbody s1.
   pose proof (IV_delete_fold (negb (fx_delete_checks_first fx))
                 (map fst (filter (fun kv => q_excl (snd kv) && (q_owner (snd kv) =? c)) (queues s1))) s1 [] H1) as Hd.
-  destruct (fold_left _ _ (s1, [])) as [s2 e2]. cbn [fst] in *. destruct Hd as [A B]. split; [sq|apply allch_del_conn; exact B].
+  destruct (fold_left _ _ (s1, [])) as [s2 e2]. cbn [fst] in *. destruct Hd as (A & B & C). split; [sq|split; [apply allch_del_conn; exact B|eapply ST_same; [| |exact C]; reflexivity]].
 Qed.
 
 Lemma IV_send_error s c h e : IV s -> IV (fst (send_error s c h e)).
 Proof.
-  intros [A B]. split; [eapply allq_same_queues; [apply queues_send_error|exact A]|apply AC_send_error; exact B].
+  intros (A & B & C). split; [eapply allq_same_queues; [apply queues_send_error|exact A]|split; [apply AC_send_error; exact B|eapply ST_FR; [apply FR_send_error|exact C]]].
 Qed.
 
 Lemma IV_apply_err s c h r : IV (fst (fst r)) -> IV (fst (apply_err s c h r)).
@@ -667,10 +868,10 @@ Proof.
 Qed.
 
 Lemma IV_ensure_chan s c h : IV s -> IV (ensure_chan s c h).
-Proof. intros [A B]. split; [sq|apply AC_ensure_chan; exact B]. Qed.
+Proof. intros (A & B & C). split; [sq|split; [apply AC_ensure_chan; exact B|eapply ST_FR; [apply FR_ensure_chan|exact C]]]. Qed.
 
-Lemma IV_same s s' : queues s' = queues s -> conns s' = conns s -> IV s -> IV s'.
-Proof. intros E1 E2 [A B]. split; [eapply allq_same_queues; eauto|eapply allch_same_conns; eauto]. Qed.
+Lemma IV_same s s' : queues s' = queues s -> conns s' = conns s -> st_add s' = st_add s -> st_db s' = st_db s -> IV s -> IV s'.
+Proof. intros E1 E2 E3 E4 (A & B & C). split; [eapply allq_same_queues; eauto|split; [eapply allch_same_conns; eauto|eapply ST_same; eauto]]. Qed.
 
 (* ---- deliveries: the head leaves; it must already be marked as delivered in g ---- *)
 Lemma Pq_pop qu u rest : Pq qu -> q_ready qu = u :: rest -> D g (q_id qu) u -> Pq (popped rest qu).
@@ -681,11 +882,11 @@ Qed.
 
 Ltac metric_upd2 := apply allq_upd_queue; [intros q0 Hq0; pqk Hq0|].
 
-Lemma IV_turn cfg fx s c h tag : IV s ->
-  ((forall q, R (fst (consumer_turn cfg fx s c h tag)) q = R s q) /\ IV (fst (consumer_turn cfg fx s c h tag))) \/
+Lemma IV_turn cfg fx s c h tag : IV2 s ->
+  ((forall q, R (fst (consumer_turn cfg fx s c h tag)) q = R s q) /\ IV2 (fst (consumer_turn cfg fx s c h tag))) \/
   (exists q qu u rest, turn_queue s c h tag = Some q /\ get_queue s q = Some qu /\ q_ready qu = u :: rest /\
      R (fst (consumer_turn cfg fx s c h tag)) q = Some rest /\
-     (D g (q_id qu) u -> IV (fst (consumer_turn cfg fx s c h tag)))).
+     (D g (q_id qu) u -> IV2 (fst (consumer_turn cfg fx s c h tag)))).
 Proof.
   intros [H C]. unfold consumer_turn, turn_queue.
   destruct (get_chan s c h) as [ch|] eqn:Ech; [|left; split; [reflexivity|split; assumption]].
@@ -736,7 +937,7 @@ Proof.
          by (eapply allq_upd_queue_at; eauto; eapply Pq_pop; eauto).
   all: assert (Q2 : qid_of (upd_queue s1 (c_queue cm) (popped rest)) (c_queue cm) = q_id qu)
          by (unfold qid_of; rewrite (get_queue_upd_queue_at _ _ _ _ E1); apply popped_keeps).
-  all: assert (Hun : u < n) by (apply Hq; rewrite Er; left; reflexivity).
+  all: assert (Hun : u < n /\ DN u) by (apply Hq; rewrite Er; left; reflexivity).
   all: split.
   1,3: apply AQ_wake; same_queues; destruct (c_noack cm);
          repeat (first [ metric_upd2 | same_queues | apply AQ_queue_ackmsg | assumption
@@ -745,14 +946,14 @@ Proof.
   all: destruct (c_noack cm).
   all: repeat (first [ assumption | same_conns | keep2 | match goal with |- allch _ (if ?b then _ else _) => destruct b end ]).
   all: apply AC_deliver; [cbn [u_qid u_msg]; rewrite (qid_of_same_queues (upd_queue s1 (c_queue cm) (popped rest))) by apply queues_upd_chan; rewrite Q2; exact HD
-                         |exact Hun|same_conns; exact C1].
+                         |apply Hun|apply Hun|same_conns; exact C1].
 Qed.
 
-Lemma IV_get cfg fx s c h q noack : IV s ->
-  (nd (snd (fst (handle_method cfg fx s c h (MGet q noack)))) /\ IV (fst (fst (handle_method cfg fx s c h (MGet q noack))))) \/
+Lemma IV_get cfg fx s c h q noack : IV2 s ->
+  (nd (snd (fst (handle_method cfg fx s c h (MGet q noack)))) /\ IV2 (fst (fst (handle_method cfg fx s c h (MGet q noack))))) \/
   (exists qu u rest, get_queue s q = Some qu /\ q_ready qu = u :: rest /\ snd (handle_method cfg fx s c h (MGet q noack)) = None /\
      (exists e, In e (snd (fst (handle_method cfg fx s c h (MGet q noack)))) /\ is_delivery e = true) /\
-     (D g (q_id qu) u -> IV (fst (fst (handle_method cfg fx s c h (MGet q noack)))))).
+     (D g (q_id qu) u -> IV2 (fst (fst (handle_method cfg fx s c h (MGet q noack)))))).
 Proof.
   intros [H C]. unfold handle_method.
   destruct (get_chan s c h) as [ch|] eqn:Hch; [|left; split; [apply nd_nil|split; assumption]].
@@ -780,7 +981,7 @@ Proof.
   assert (H2 : allq Pq (upd_queue s1 q (popped rest))) by (eapply allq_upd_queue_at; eauto; eapply Pq_pop; eauto).
   assert (Q2 : qid_of (upd_queue s1 q (popped rest)) q = q_id qu)
     by (unfold qid_of; rewrite (get_queue_upd_queue_at _ _ _ _ E1); apply popped_keeps).
-  assert (Hun : u < n) by (apply Hq; rewrite Er; left; reflexivity).
+  assert (Hun : u < n /\ DN u) by (apply Hq; rewrite Er; left; reflexivity).
   split.
   - same_queues. destruct noack.
     all: repeat (first [ metric_upd2 | same_queues | apply AQ_queue_ackmsg | assumption
@@ -788,7 +989,7 @@ Proof.
   - same_conns. destruct noack.
     all: repeat (first [ assumption | same_conns | keep2 | match goal with |- allch _ (if ?b then _ else _) => destruct b end ]).
     apply AC_deliver; [cbn [u_qid u_msg]; rewrite (qid_of_same_queues (upd_queue s1 q (popped rest))) by apply queues_upd_chan; rewrite Q2; exact HD
-                      |exact Hun|same_conns; exact C1].
+                      |apply Hun|apply Hun|same_conns; exact C1].
 Qed.
 
 (* ---- every label that neither delivers nor restarts, for the fixed ghost ---- *)
@@ -798,7 +999,7 @@ Definition content_chan (l : label) : option (N * N) :=
 Lemma IV_newconn s c st : get_conn s c = None -> IV s ->
   IV (s <| conns := aset N.eqb c {| cn_chans := [(0, channel0 <| ch_status := ChNew |>)]; cn_qos := qos0; cn_stage := st |} (conns s) |>).
 Proof.
-  intros Ec [A B]. split; [sq|].
+  intros Ec (A & B & C). split; [sq|split; [|eapply ST_same; [| |exact C]; reflexivity]].
   intros c' h' ch' Hg. unfold get_chan, get_conn in Hg. cbn in Hg. rewrite (alookup_aset N.eqb Neqb_spec) in Hg.
   destruct (c' =? c) eqn:E1.
   - cbn in Hg. destruct (h' =? 0); inversion Hg; subst. apply P2_nil. reflexivity.
@@ -836,7 +1037,7 @@ Proof.
     destruct (get_msg _ u) as [m|]; [|exact H0].
     destruct (m_has_header m); [apply IV_apply_err_st; exact H0|].
     assert (H1 : forall f, IV (upd_msg (ensure_chan s c h) u f))
-      by (intros f; eapply IV_same; [apply queues_upd_msg|apply conns_upd_msg|exact H0]).
+      by (intros f; eapply IV_same; [apply queues_upd_msg|apply conns_upd_msg|apply sdb_upd_msg|apply sdb_upd_msg|exact H0]).
     destruct (_ && _)%bool; [|apply H1].
     apply IV_finish_publish; [|apply H1]. eapply HG; eauto. reflexivity.
   - (* LBody *)
@@ -849,32 +1050,36 @@ Proof.
     destruct (get_msg _ u) as [m|]; [|exact H0].
     destruct (negb (m_has_header m)); [apply IV_apply_err_st; exact H0|].
     destruct (_ <? _).
-    { apply IV_apply_err_st. cbn [fst]. destruct H0 as [A B]. split; [sq|keep2; exact B]. }
+    { apply IV_apply_err_st. cbn [fst]. destruct H0 as (A & B & C). split; [sq|split; [keep2; exact B|apply ST_upd_chan; exact C]]. }
     assert (H1 : forall f, IV (upd_msg (ensure_chan s c h) u f))
-      by (intros f; eapply IV_same; [apply queues_upd_msg|apply conns_upd_msg|exact H0]).
+      by (intros f; eapply IV_same; [apply queues_upd_msg|apply conns_upd_msg|apply sdb_upd_msg|apply sdb_upd_msg|exact H0]).
     destruct (_ <? _); [apply H1|].
     apply IV_finish_publish; [|apply H1]. eapply HG; eauto. reflexivity.
-  - (* LQueueLoop *) cbn [fst]. destruct H as [A B]. split; [apply AQ_queue_loop_turn; exact A|apply AC_queue_loop_turn; exact B].
+  - (* LQueueLoop *) cbn [fst]. destruct H as (A & B & C). split; [apply AQ_queue_loop_turn; exact A|split; [apply AC_queue_loop_turn; exact B|eapply ST_FR; [apply FR_queue_loop_turn|exact C]]].
   - (* LAutoDelete *)
     destruct (autodel s) as [|qn rest]; [exact H|].
-    assert (H0 : IV (s <| autodel := rest |>)) by (eapply IV_same; [| |exact H]; reflexivity).
+    assert (H0 : IV (s <| autodel := rest |>)) by (eapply IV_same; [| | | |exact H]; reflexivity).
     destruct (get_queue _ qn) as [qu0|]; [|exact H0]. destruct (q_autodel qu0); [|exact H0].
     pose proof (IV_vhost_delete_queue (negb (fx_delete_checks_first fx)) _ qn true false H0) as Hd.
     destruct (vhost_delete_queue _ (s <| autodel := rest |>) qn true false) as [[s1 e1] r1]. exact Hd.
   - (* LPersistTick *)
     cbn [fst]. apply fold_left_preserves.
-    + intros s0 k H0. eapply IV_same; [apply queues_store_confirm|apply conns_store_confirm|exact H0].
-    + eapply IV_same; [| |exact H]; reflexivity.
+    + intros s0 k (A & B & C). split; [eapply allq_same_queues; [apply queues_store_confirm|exact A]|].
+      split; [eapply allch_same_conns; [apply conns_store_confirm|exact B]|eapply ST_FR; [apply FR_store_confirm|exact C]].
+    + destruct H as (A & B & C). split; [sq|split; [repeat same_conns; exact B|]].
+      intros k Hk. unfold store in Hk. cbn [st_add st_db set app] in Hk. apply filter_In in Hk. destruct Hk as [Hk _].
+      apply in_app_or in Hk. destruct Hk as [Hk|Hk]; [apply C; apply in_or_app; right; exact Hk|].
+      apply filter_In in Hk. destruct Hk as [Hk _]. apply filter_In in Hk. destruct Hk as [Hk _]. apply C. apply in_or_app. left. exact Hk.
   - (* LRelay *)
     destruct (relay s) as [|u rest]; [exact H|].
-    assert (H0 : IV (s <| relay := rest |>)) by (eapply IV_same; [| |exact H]; reflexivity).
+    assert (H0 : IV (s <| relay := rest |>)) by (eapply IV_same; [| | | |exact H]; reflexivity).
     destruct (get_msg _ u) as [m|]; cbn [fst]; auto.
     destruct (m_conf m) as [[[? ?] ?]|]; cbn [fst]; auto.
-    destruct H0 as [A B]. split; [sq|apply AC_add_confirm; exact B].
+    destruct H0 as (A & B & C). split; [sq|split; [apply AC_add_confirm; exact B|eapply ST_FR; [apply FR_add_confirm|exact C]]].
   - (* LConfirmTick *)
     destruct (get_chan s c h) as [ch|] eqn:Ech; [|exact H]. destruct (negb _); [exact H|].
-    destruct H as [A B].
-    destruct (ch_status ch); cbn [fst]; (split; [sq|set_keep2 Ech B; exact B]).
+    destruct H as (A & B & C).
+    destruct (ch_status ch); cbn [fst]; (split; [sq|split; [set_keep2 Ech B; exact B|eapply ST_same; [| |exact C]; apply sdb_set_chan]]).
   - (* LSocketLoss *)
     pose proof (IV_conn_close cfg fx s c H) as Hc. destruct (conn_close cfg fx s c) as [s1 e1]. exact Hc.
   - (* LAccept *) destruct (get_conn s c) eqn:Ec; cbn [fst]; auto. apply IV_newconn; auto.
@@ -915,23 +1120,29 @@ Proof.
   - apply IH; [intros a b Ha; apply Hi; right; exact Ha|exact Ht].
 Qed.
 
+Lemma IV_IV2 g n s : IV g n s -> IV2 g n s. Proof. intros (A & B & _). split; assumption. Qed.
+Lemma IV_ST g n s : IV g n s -> ST g s. Proof. intros (_ & _ & C). exact C. Qed.
+Lemma IV_join g n s : IV2 g n s -> ST g s -> IV g n s. Proof. intros [A B] C. split; [exact A|split; assumption]. Qed.
 Lemma IV_change g g' n n' s :
   (forall qid x, D g qid x <-> D g' qid x) ->
   (forall b m, done_at g' b = Some m -> done_at g b = Some m \/ n <= m) ->
+  (forall b, done_at g b <> None -> done_at g' b <> None) ->
   n <= n' -> IV g n s -> IV g' n' s.
 Proof.
-  intros HD Hdn Hn [A B]. split.
+  intros HD Hdn Hmo Hn (A & B & C). split; [|split; [|intros k Hk; apply Hmo; apply C; exact Hk]].
   - intros qn qu Hin. destruct (A qn qu Hin) as [(ret & fresh & E & R1 & R2 & R3) Hb]. split.
     + exists ret, fresh. split; [exact E|]. split; [intros x Hx; apply HD; apply R1; exact Hx|].
       split; [intros x Hx Hd; apply (R2 x Hx); apply HD; exact Hd|].
       eapply FOP_impl_in; [|exact R3]. intros a b Ha Hab m Hm.
       destruct (Hdn b m Hm) as [Hm'|Hm']; [apply Hab; exact Hm'|].
       assert (a < n) by (apply Hb; rewrite E; apply in_or_app; right; exact Ha). lia.
-    + intros x Hx. specialize (Hb x Hx). lia.
-  - intros c h ch Hg e He. destruct (B c h ch Hg e He) as [B1 B2]. split; [apply HD; exact B1|lia].
+    + intros x Hx. destruct (Hb x Hx) as [Hb1 Hb2]. split; [lia|apply Hmo; exact Hb2].
+  - intros c h ch Hg e He. destruct (B c h ch Hg e He) as (B1 & B2 & B3). split; [apply HD; exact B1|split; [lia|apply Hmo; exact B3]].
 Qed.
 
 Definition mark (g : ghost) (qid u : N) : ghost := {| g_dlv := (qid, u) :: g_dlv g; g_done := g_done g; g_pub := g_pub g |}.
+
+Lemma ST_mark g qid u s : ST g s -> ST (mark g qid u) s. Proof. intros H. exact H. Qed.
 
 Lemma D_mark g qid u qid' x : D (mark g qid u) qid' x <-> (qid' = qid /\ x = u) \/ D g qid' x.
 Proof.
@@ -964,7 +1175,7 @@ Qed.
 Lemma IV_mark g n s q qu u rest :
   HI s -> get_queue s q = Some qu -> q_ready qu = u :: rest -> IV g n s -> IV (mark g (q_id qu) u) n s.
 Proof.
-  intros Hhi Hq Er [A B]. split.
+  intros Hhi Hq Er (A & B & C). split; [|split; [|exact C]].
   - intros qn' qu' Hin. destruct (A qn' qu' Hin) as [Hs Hb]. split; [|exact Hb].
     destruct (N.eq_dec (q_id qu') (q_id qu)) as [Ei|Ei].
     + assert (E : (qn', qu') = (q, qu)).
@@ -974,7 +1185,7 @@ Proof.
       inversion E; subst. rewrite Er in *. apply shape_mark; [|exact Hs].
       rewrite <- Er. eapply ready_nodup; eauto.
     + apply shape_mark_other; auto.
-  - intros c h ch Hg e He. destruct (B c h ch Hg e He) as [B1 B2]. split; [apply D_mark; right; exact B1|exact B2].
+  - intros c h ch Hg e He. destruct (B c h ch Hg e He) as (B1 & B2 & B3). split; [apply D_mark; right; exact B1|split; [exact B2|exact B3]].
 Qed.
 
 (* ================================================================== *)
@@ -1030,6 +1241,15 @@ Proof.
     rewrite Hu; cbn [g_done alookup]; rewrite N.eqb_refl; reflexivity.
 Qed.
 
+Lemma gstep_done_mono s l s' evs g b : done_at g b <> None -> done_at (gstep s l s' evs g) b <> None.
+Proof.
+  unfold done_at. destruct l; cbn [gstep]; auto.
+  - destruct m; auto. destruct (existsb _ _); auto.
+  - destruct (cur_of s c h) as [u|]; auto. cbn [g_done alookup]. destruct (b =? u); [discriminate|auto].
+  - destruct (cur_of s c h) as [u|]; auto. cbn [g_done alookup]. destruct (b =? u); [discriminate|auto].
+  - destruct (turn_queue s c h tag) as [q|]; auto. destruct (Nat.ltb _ _); auto.
+Qed.
+
 Lemma cur_of_ensure s c h ch u :
   get_chan (ensure_chan s c h) c h = Some ch -> ch_cur ch = Some u -> cur_of s c h = Some u /\ In u (all_cur s).
 Proof.
@@ -1048,14 +1268,18 @@ Proof.
   destruct (is_restart l) eqn:Hr.
   { (* restart *)
     destruct l; try discriminate. cbn [step gstep]. unfold FI. split; [|split].
-    - split.
+    - split; [|split].
+      3:{ intros k Hk. unfold store, restart in Hk. cbn [fst st_add st_db app] in Hk. apply filter_In in Hk. destruct Hk as [Hk _].
+          apply (IV_ST _ _ _ Hiv). apply in_or_app. right. exact Hk. }
       + intros qn qu Hin. unfold restart in Hin. cbn [fst queues] in Hin. apply in_map_iff in Hin.
         destruct Hin as ([qn0 qu0] & E & _). cbn [fst snd] in E. inversion E; subst. clear E.
         destruct (restart_messages s qn) as [Hp Hs]. split.
         * exists [], (stored_of s qn). split; [reflexivity|]. split; [intros x []|]. split; [intros x _ []|].
           apply FOP_of_sorted; [|exact Hs]. intros b m Hm. apply (Hdn b m Hm).
         * cbn. intros x Hx. apply (Permutation_in _ Hp) in Hx. apply in_map_iff in Hx. destruct Hx as ([x0 q0] & <- & Hx).
-          apply filter_In in Hx. destruct Hx as [Hx _]. apply (hi_store_lt _ Hhi (x0, q0)). unfold store. apply in_or_app. right. exact Hx.
+          apply filter_In in Hx. destruct Hx as [Hx _].
+          assert (Hst : In (x0, q0) (store s)) by (unfold store; apply in_or_app; right; exact Hx).
+          split; [apply (hi_store_lt _ Hhi (x0, q0) Hst)|apply (IV_ST _ _ _ Hiv (x0, q0) Hst)].
       + intros c h ch Hg. unfold get_chan, get_conn in Hg. cbn in Hg. discriminate.
     - intros qid u [].
     - exact Hdn. }
@@ -1082,34 +1306,34 @@ Proof.
     set (g' := gstep s l s' evs g).
     assert (Hdl : g_dlv g' = g_dlv g) by (apply gstep_dlv_same; assumption).
     assert (HD : forall qid x, D g qid x <-> D g' qid x) by (intros; unfold D; rewrite Hdl; tauto).
-    apply (IV_change g' g' (next_uid s)); [tauto|auto|exact Hn|].
+    apply (IV_change g' g' (next_uid s)); [tauto|auto|auto|exact Hn|].
     apply IV_step; [exact Hl|exact Hr| |].
-    - intros c h ch u Hc Hg Hu. destruct (cur_of_ensure _ _ _ _ _ Hg Hu) as [Hcu Hin]. split; [|split].
+    - intros c h ch u Hc Hg Hu. destruct (cur_of_ensure _ _ _ _ _ Hg Hu) as [Hcu Hin]. split; [|split; [|split]].
       + intros qid Hx. apply HD in Hx. apply (Hd qid u Hx). exact Hin.
       + intros m Hm. unfold g' in Hm. rewrite (gstep_done_cur s l s' evs g c h u Hc Hcu) in Hm. inversion Hm. lia.
       + apply (hi_cur_lt _ Hhi). exact Hin.
-    - apply (IV_change g g' (next_uid s)); [exact HD| |lia|exact Hiv].
+      + unfold DN, g'. rewrite (gstep_done_cur s l s' evs g c h u Hc Hcu). discriminate.
+    - apply (IV_change g g' (next_uid s)); [exact HD| |apply gstep_done_mono|lia|exact Hiv].
       intros b m Hm. apply gstep_done in Hm. destruct Hm as [Hm|[-> _]]; [left; exact Hm|right; lia]. }
   destruct l; try discriminate.
   - (* basic.get *)
     cbn [delivering] in Hl. destruct m; try discriminate. rename q into qn.
-    assert (Hdone : forall g0, g_done g0 = g_done g -> forall b m, done_at g0 b = Some m -> done_at g b = Some m \/ next_uid s <= m)
-      by (intros g0 E b m Hm; left; unfold done_at in *; rewrite <- E; exact Hm).
     destruct (get_step_cases g (next_uid s) cfg fx s c h qn noack) as [[Hnd Hk]|[o Eo]].
     + (* nothing delivered *)
       assert (Eg : gstep s (LMethod c h (MGet qn noack)) s' evs g = g).
       { cbn [gstep]. replace (existsb is_delivery evs) with false; [reflexivity|]. symmetry. apply Bool.not_true_iff_false. intros Hex.
         apply existsb_exists in Hex. destruct Hex as (e & He & Hde). rewrite (Hnd e He) in Hde. discriminate. }
-      rewrite Eg. apply (IV_change g g (next_uid s)); [tauto|auto|exact Hn|]. apply Hk. exact Hiv.
+      rewrite Eg. apply (IV_change g g (next_uid s)); [tauto|auto|auto|exact Hn|]. apply Hk. exact Hiv.
     + (* the step is the handler *)
       assert (Hiv0 : forall g0, IV g0 (next_uid s) s -> IV g0 (next_uid s) (ensure_chan s c h)) by (intros; apply IV_ensure_chan; assumption).
       assert (Gq : get_queue (ensure_chan s c h) qn = get_queue s qn) by (apply get_queue_same_queues; apply queues_ensure_chan).
-      destruct (IV_get g (next_uid s) cfg fx (ensure_chan s c h) c h qn noack (Hiv0 g Hiv)) as [[Hnd Hk]|(qu & u & rest & Hq & Er & En & (e & He & Hde) & _)].
+      destruct (IV_get g (next_uid s) cfg fx (ensure_chan s c h) c h qn noack (IV_IV2 _ _ _ (Hiv0 g Hiv))) as [[Hnd Hk]|(qu & u & rest & Hq & Er & En & (e & He & Hde) & _)].
       * assert (Hnd' : nd evs) by (unfold evs; rewrite Eo; apply nd_apply_err_st; exact Hnd).
         assert (Eg : gstep s (LMethod c h (MGet qn noack)) s' evs g = g).
         { cbn [gstep]. replace (existsb is_delivery evs) with false; [reflexivity|]. symmetry. apply Bool.not_true_iff_false. intros Hex.
           apply existsb_exists in Hex. destruct Hex as (e & He & Hde). rewrite (Hnd' e He) in Hde. discriminate. }
-        rewrite Eg. apply (IV_change g g (next_uid s)); [tauto|auto|exact Hn|]. unfold s'. rewrite Eo. apply IV_apply_err_st. exact Hk.
+        rewrite Eg. apply (IV_change g g (next_uid s)); [tauto|auto|auto|exact Hn|]. unfold s'. rewrite Eo. apply IV_apply_err_st.
+        apply IV_join; [exact Hk|]. apply ST_get. apply (IV_ST _ _ _ (Hiv0 g Hiv)).
       * rewrite Gq in Hq.
         assert (Es : step cfg fx s (LMethod c h (MGet qn noack)) = fst (handle_method cfg fx (ensure_chan s c h) c h (MGet qn noack)))
           by (rewrite Eo; apply apply_err_st_ok; exact En).
@@ -1117,35 +1341,39 @@ Proof.
         { cbn [gstep]. replace (existsb is_delivery evs) with true.
           - unfold head_of. rewrite Hq, Er. reflexivity.
           - symmetry. apply existsb_exists. exists e. split; [unfold evs; rewrite Es; exact He|exact Hde]. }
-        rewrite Eg. apply (IV_change (mark g (q_id qu) u) (mark g (q_id qu) u) (next_uid s)); [tauto|auto|exact Hn|].
+        rewrite Eg. apply (IV_change (mark g (q_id qu) u) (mark g (q_id qu) u) (next_uid s)); [tauto|auto|auto|exact Hn|].
         pose proof (IV_mark g (next_uid s) s qn qu u rest Hhi Hq Er Hiv) as Hm.
         unfold s'. rewrite Es.
-        destruct (IV_get (mark g (q_id qu) u) (next_uid s) cfg fx (ensure_chan s c h) c h qn noack (Hiv0 _ Hm))
+        apply IV_join; [|apply ST_get; apply (IV_ST _ _ _ (Hiv0 _ Hm))].
+        destruct (IV_get (mark g (q_id qu) u) (next_uid s) cfg fx (ensure_chan s c h) c h qn noack (IV_IV2 _ _ _ (Hiv0 _ Hm)))
           as [[_ Hk]|(qu' & u' & rest' & Hq' & Er' & _ & _ & Hk)]; [exact Hk|].
         rewrite Gq, Hq in Hq'. inversion Hq'; subst qu'. rewrite Er in Er'. inversion Er'; subst. apply Hk. apply D_mark. left. auto.
   - (* consumer turn *)
-    cbn [step] in s', evs. 
-    destruct (IV_turn g (next_uid s) cfg fx s c h tag Hiv) as [[HR Hk]|(q & qu & u & rest & Et & Hq & Er & HR & _)].
+    cbn [step] in s', evs.
+    destruct (IV_turn g (next_uid s) cfg fx s c h tag (IV_IV2 _ _ _ Hiv)) as [[HR Hk]|(q & qu & u & rest & Et & Hq & Er & HR & _)].
     + assert (Eg : gstep s (LConsumerTurn c h tag) s' evs g = g).
       { cbn [gstep]. destruct (turn_queue s c h tag) as [q|]; [|reflexivity].
         rewrite !rlen_R. unfold s'. rewrite HR. rewrite Nat.ltb_irrefl. reflexivity. }
-      rewrite Eg. apply (IV_change g g (next_uid s)); [tauto|auto|exact Hn|exact Hk].
+      rewrite Eg. apply (IV_change g g (next_uid s)); [tauto|auto|auto|exact Hn|].
+      apply IV_join; [exact Hk|apply ST_consumer_turn; apply (IV_ST _ _ _ Hiv)].
     + assert (Eg : gstep s (LConsumerTurn c h tag) s' evs g = mark g (q_id qu) u).
       { cbn [gstep]. rewrite Et. rewrite !rlen_R. unfold s'. rewrite HR. unfold R. rewrite Hq, Er. cbn [List.length].
         replace (Nat.ltb (List.length rest) (S (List.length rest))) with true by (symmetry; apply Nat.ltb_lt; lia).
         unfold head_of. rewrite Hq, Er. reflexivity. }
-      rewrite Eg. apply (IV_change (mark g (q_id qu) u) (mark g (q_id qu) u) (next_uid s)); [tauto|auto|exact Hn|].
+      rewrite Eg. apply (IV_change (mark g (q_id qu) u) (mark g (q_id qu) u) (next_uid s)); [tauto|auto|auto|exact Hn|].
       pose proof (IV_mark g (next_uid s) s q qu u rest Hhi Hq Er Hiv) as Hm.
-      destruct (IV_turn (mark g (q_id qu) u) (next_uid s) cfg fx s c h tag Hm) as [[_ Hk]|(q' & qu' & u' & rest' & Et' & Hq' & Er' & _ & Hk)]; [exact Hk|].
+      apply IV_join; [|apply ST_consumer_turn; apply (IV_ST _ _ _ Hm)].
+      destruct (IV_turn (mark g (q_id qu) u) (next_uid s) cfg fx s c h tag (IV_IV2 _ _ _ Hm)) as [[_ Hk]|(q' & qu' & u' & rest' & Et' & Hq' & Er' & _ & Hk)]; [exact Hk|].
       rewrite Et in Et'. inversion Et'; subst q'. rewrite Hq in Hq'. inversion Hq'; subst qu'. rewrite Er in Er'. inversion Er'; subst.
       apply Hk. apply D_mark. left. auto.
 Qed.
 
 Lemma FI_init cfg : FI ghost0 (init cfg).
 Proof.
-  split; [split|split].
+  split; [split; [|split]|split].
   - intros qn qu Hin. cbn in Hin. contradiction.
   - intros c h ch Hg. unfold get_chan, get_conn in Hg. cbn in Hg. discriminate.
+  - intros k [].
   - intros qid u [].
   - intros b m Hm. discriminate.
 Qed.
@@ -1239,10 +1467,287 @@ Proof.
 Qed.
 
 (* ================================================================== *)
-(* 5. one publisher channel.  PARTIAL: the link "two routed messages of one channel: the earlier one's publish was complete
-   before the later one's began" is proved from the model property [cur_only_by_publish] - a channel's current message
-   (ch_cur) is set only by a basic.publish frame on that very channel, to the id allocated by it - which is stated here as a
-   hypothesis and NOT proved in this file (it needs one more pass over every label for a predicate that reads ch_cur). *)
+(* 5. one publisher channel.
+   5a. a channel's current message (ch_cur) is set only by a basic.publish frame on that very channel, to the id the frame
+   allocates; every other operation keeps it or clears it (completion, refusal, reopen, close).  CKN st st': the id counter is
+   the same and every current message of st' is the current message of the same channel in st. *)
+Definition CKN (st st' : state) : Prop :=
+  next_uid st' = next_uid st /\ forall c h w, cur_of st' c h = Some w -> cur_of st c h = Some w.
+
+Lemma CKN_refl st : CKN st st. Proof. split; auto. Qed.
+Lemma CKN_trans s1 s2 s3 : CKN s1 s2 -> CKN s2 s3 -> CKN s1 s3.
+Proof. intros [A1 B1] [A2 B2]. split; [congruence|auto]. Qed.
+
+Lemma vle_CKN st st' : vle st st' -> CKN st st'.
+Proof.
+  intros V. split; [apply V|]. intros c h w. pose proof (v_chan _ _ V c h) as Hc. unfold cur_of.
+  destruct (get_chan st' c h) as [ch'|]; [|discriminate]. destruct (get_chan st c h) as [ch|]; [|destruct Hc].
+  destruct Hc as [E _]. unfold chw in E. injection E as _ _ _ _ _ E. rewrite E. auto.
+Qed.
+
+Lemma CKN_same st st' : conns st' = conns st -> next_uid st' = next_uid st -> CKN st st'.
+Proof. intros E1 E2. split; [exact E2|]. intros c h w. unfold cur_of. rewrite (get_chan_same_conns _ _ _ _ E1). auto. Qed.
+
+Lemma CKN_set_chan st c h ch ch' :
+  get_chan st c h = Some ch -> (ch_cur ch' = ch_cur ch \/ ch_cur ch' = None) -> CKN st (set_chan st c h ch').
+Proof.
+  intros Hg Hc. split; [apply next_set_chan|]. intros c' h' w. unfold cur_of. rewrite get_chan_set_chan.
+  pose proof (get_chan_conn _ _ _ _ Hg) as Hn. destruct (get_conn st c); [|congruence].
+  destruct ((c' =? c) && (h' =? h)) eqn:Eb; [|auto].
+  apply andb_prop in Eb. destruct Eb as [E1 E2]. apply N.eqb_eq in E1, E2. subst. rewrite Hg.
+  destruct Hc as [-> | ->]; [auto|discriminate].
+Qed.
+
+Lemma CKN_upd_chan st c h f : (forall ch, ch_cur (f ch) = ch_cur ch \/ ch_cur (f ch) = None) -> CKN st (upd_chan st c h f).
+Proof. intros Hf. unfold upd_chan. destruct (get_chan st c h) as [ch|] eqn:E; [|apply CKN_refl]. eapply CKN_set_chan; eauto. Qed.
+
+Lemma next_uid_ensure_chan st c h : next_uid (ensure_chan st c h) = next_uid st.
+Proof. unfold ensure_chan. destruct (get_conn st c) as [cn|]; [|reflexivity]. destruct (alookup _ _ _); reflexivity. Qed.
+
+Lemma CKN_ensure st c h : CKN st (ensure_chan st c h).
+Proof.
+  split; [apply next_uid_ensure_chan|]. intros c' h' w. unfold cur_of.
+  destruct (get_chan (ensure_chan st c h) c' h') as [ch'|] eqn:Hg; [|discriminate].
+  apply get_chan_ensure in Hg. destruct Hg as [Hg| ->]; [rewrite Hg; auto|discriminate].
+Qed.
+
+Lemma CKN_delconn st c : CKN st (st <| conns := adel N.eqb c (conns st) |>).
+Proof.
+  split; [reflexivity|]. intros c' h' w. unfold cur_of. rewrite get_chan_del_conn. destruct (c' =? c); [discriminate|auto].
+Qed.
+
+Lemma CKN_newconn st c stg : get_conn st c = None ->
+  CKN st (st <| conns := aset N.eqb c {| cn_chans := [(0, channel0 <| ch_status := ChNew |>)]; cn_qos := qos0; cn_stage := stg |} (conns st) |>).
+Proof.
+  intros Ec. split; [reflexivity|]. intros c' h' w. unfold cur_of, get_chan, get_conn. cbn. rewrite (alookup_aset N.eqb Neqb_spec).
+  destruct (c' =? c) eqn:E1; [|auto]. cbn. destruct (h' =? 0); discriminate.
+Qed.
+
+Lemma CKN_add_confirm st c h t : CKN st (add_confirm st c h t).
+Proof.
+  unfold add_confirm. destruct (get_chan st c h) as [ch|] eqn:E; [|apply CKN_refl]. destruct (negb _); [apply CKN_refl|].
+  destruct (ch_status ch); try apply CKN_refl; destruct t as [[[? ?] ?]|]; try apply CKN_refl;
+    (eapply CKN_set_chan; [exact E|left; reflexivity]).
+Qed.
+
+Lemma next_uid_upd_msg' st u f : next_uid (upd_msg st u f) = next_uid st.
+Proof. unfold upd_msg. destruct (get_msg st u); reflexivity. Qed.
+
+Lemma CKN_queue_push st qn u : CKN st (queue_push st qn u).
+Proof.
+  destruct (queue_push_effect st qn u) as [->|(qu & _ & _ & E1 & _ & E2 & _)]; [apply CKN_refl|]. apply CKN_same; assumption.
+Qed.
+
+Lemma CKN_route_and_push fx st c h u : CKN st (fst (route_and_push fx st c h u)).
+Proof.
+  unfold route_and_push. destruct (get_msg st u) as [m|]; [|apply CKN_refl].
+  destruct (alookup _ _ _) as [ex|]; cbn [fst]; [|apply CKN_add_confirm].
+  destruct (matched_queues _ _ _) as [|q1 qs]; cbn [fst]; [apply CKN_add_confirm|].
+  apply fold_left_preserves.
+  - intros s1 qn H1. unfold push_one.
+    assert (H2 : CKN st (queue_push s1 qn u)) by (eapply CKN_trans; [exact H1|apply CKN_queue_push]).
+    destruct (get_msg _ u); [|exact H2]. destruct (_ && _ && _); [|exact H2]. eapply CKN_trans; [exact H2|apply CKN_add_confirm].
+  - destruct (_ && _)%bool; [|apply CKN_refl]. apply CKN_same; [apply conns_upd_msg|apply next_uid_upd_msg'].
+Qed.
+
+Lemma CKN_finish_publish fx st c h u : CKN st (fst (finish_publish fx st c h u)).
+Proof.
+  unfold finish_publish. pose proof (CKN_route_and_push fx st c h u) as H1.
+  destruct (route_and_push fx st c h u) as [s1 e1]. cbn [fst] in *.
+  destruct (fx_clear_current fx); [|exact H1]. eapply CKN_trans; [exact H1|]. apply CKN_upd_chan. intros ch. right. reflexivity.
+Qed.
+
+Lemma CKN_store_confirm st u : CKN st (store_confirm st u).
+Proof.
+  apply CKN_same; [apply conns_store_confirm|]. unfold store_confirm. destruct (get_msg st u) as [m|]; [|reflexivity].
+  destruct (m_conf m); [|reflexivity]. destruct (_ =? _)%Z; cbn; apply next_uid_upd_msg'.
+Qed.
+
+Lemma CKN_restart cfg st : CKN st (fst (restart cfg st)).
+Proof. split; [reflexivity|]. intros c h w. unfold cur_of, get_chan, get_conn, restart. cbn. discriminate. Qed.
+
+Section CurStep.
+Variables (cfg : config) (fx : fixes) (s : state) (l : label).
+(* the state in which the handler of a method of the confirm machinery (channel.open, basic.publish, confirm.select) ends *)
+Definition HS (c h : N) (m : meth) : state := fst (fst (handle_method cfg fx (ensure_chan s c h) c h m)).
+Definition BC (st : state) : Prop :=
+  CKN s st \/ exists c h m, l = LMethod c h m /\ confirm_method m = true /\ CKN (HS c h m) st.
+
+Lemma BC_ckn st st' : CKN st st' -> BC st -> BC st'.
+Proof.
+  intros H [B|(c & h & m & E1 & E2 & B)]; [left; eapply CKN_trans; eauto|].
+  right. exists c, h, m. split; [exact E1|]. split; [exact E2|]. eapply CKN_trans; eauto.
+Qed.
+Lemma BC_vle st st' : vle st st' -> BC st -> BC st'.
+Proof. intros V. apply BC_ckn. apply vle_CKN. exact V. Qed.
+
+Lemma BC_conn_close st c : BC st -> BC (fst (conn_close cfg fx st c)).
+Proof.
+  intros Hb. unfold conn_close. destruct (get_conn st c) as [cn|]; [|exact Hb].
+  set (s1 := fold_left _ _ st).
+  assert (H1 : vle st s1) by (subst s1; apply fold_left_preserves; [intros; apply V_channel_close; auto|apply vle_refl]).
+  clearbody s1.
+  pose proof (V_delete_fold st (negb (fx_delete_checks_first fx))
+                (map fst (filter (fun kv => q_excl (snd kv) && (q_owner (snd kv) =? c)) (queues s1))) s1 [] H1) as Hd.
+  destruct (fold_left _ _ (s1, [])) as [s2 e2]. cbn [fst] in *. eapply BC_ckn; [apply CKN_delconn|]. eapply BC_vle; eauto.
+Qed.
+Lemma BC_apply_err st c h r : BC (fst (fst r)) -> BC (fst (apply_err st c h r)).
+Proof. intros Hb. eapply BC_vle; [|exact Hb]. apply V_apply_err. apply vle_refl. Qed.
+Lemma BC_apply_err_st opened st c h r : BC (fst (fst r)) -> BC (fst (apply_err_st cfg fx opened st c h r)).
+Proof.
+  intros H. unfold apply_err_st. destruct opened; [apply BC_apply_err; auto|].
+  destruct (snd r) as [[| ]|]; try (apply BC_apply_err; auto).
+  pose proof (BC_apply_err st c h r H) as H1. destruct (apply_err st c h r) as [s1 e1]. cbn [fst] in H1.
+  pose proof (BC_conn_close s1 c H1) as H2. destruct (conn_close cfg fx s1 c) as [s2 e2]. exact H2.
+Qed.
+
+Lemma BC_handler c h m : l = LMethod c h m -> BC (fst (fst (handle_method cfg fx (ensure_chan s c h) c h m))).
+Proof.
+  intros El. destruct (confirm_method m) eqn:Hcm.
+  - right. exists c, h, m. split; [exact El|]. split; [exact Hcm|apply CKN_refl].
+  - left. eapply CKN_trans; [apply CKN_ensure|]. apply vle_CKN. apply V_handle_method. exact Hcm.
+Qed.
+
+Theorem BC_step : BC (fst (step cfg fx s l)).
+Proof.
+  assert (Hb : BC s) by (left; apply CKN_refl).
+  assert (Hens : forall c h, BC (ensure_chan s c h)) by (intros; left; apply CKN_ensure).
+  destruct l eqn:El; cbn [step].
+  - (* LConnect *) destruct (get_conn s c) eqn:Ec; cbn [fst]; [exact Hb|]. left. apply CKN_newconn. exact Ec.
+  - (* LMethod *)
+    destruct (get_conn s c) as [cn0|]; [|exact Hb].
+    destruct (negb _ && negb _)%bool; [apply BC_conn_close; auto|].
+    pose proof (Hens c h) as B0.
+    destruct m.
+    all: try (repeat match goal with |- context [if ?b then _ else _] => destruct b end;
+              first [ exact B0
+                    | apply BC_apply_err; first [ apply BC_handler; exact El | exact B0 ]
+                    | apply BC_apply_err_st; first [ apply BC_handler; exact El | exact B0 ] ]).
+    + destruct (fx_stage fx && negb (h =? 0)); [apply BC_apply_err; exact B0|].
+      pose proof (BC_conn_close _ c B0) as Hc.
+      destruct (conn_close cfg fx (ensure_chan s c h) c) as [s1 e1]. exact Hc.
+    + destruct (fx_stage fx && negb (h =? 0)); [apply BC_apply_err; exact B0|]. apply BC_conn_close; auto.
+  - (* LHeader *)
+    destruct (get_conn s c) as [cn0|]; [|exact Hb].
+    destruct (negb _ && negb _)%bool; [apply BC_conn_close; auto|].
+    pose proof (Hens c h) as B0.
+    destruct (get_chan _ c h) as [ch|] eqn:Ech; [|exact B0].
+    destruct (_ && _)%bool; [exact B0|].
+    destruct (ch_cur ch) as [u|] eqn:Ecur; [|apply BC_apply_err_st; exact B0].
+    destruct (get_msg _ u) as [m|]; [|exact B0].
+    destruct (m_has_header m); [apply BC_apply_err_st; exact B0|].
+    assert (H1 : forall f, BC (upd_msg (ensure_chan s c h) u f))
+      by (intros f; eapply BC_ckn; [apply CKN_same; [apply conns_upd_msg|apply next_uid_upd_msg']|exact B0]).
+    destruct (_ && _)%bool; [|apply H1].
+    eapply BC_ckn; [apply CKN_finish_publish|apply H1].
+  - (* LBody *)
+    destruct (get_conn s c) as [cn0|]; [|exact Hb].
+    destruct (negb _ && negb _)%bool; [apply BC_conn_close; auto|].
+    pose proof (Hens c h) as B0.
+    destruct (get_chan _ c h) as [ch|] eqn:Ech; [|exact B0].
+    destruct (_ && _)%bool; [exact B0|].
+    destruct (ch_cur ch) as [u|] eqn:Ecur; [|apply BC_apply_err_st; exact B0].
+    destruct (get_msg _ u) as [m|]; [|exact B0].
+    destruct (negb (m_has_header m)); [apply BC_apply_err_st; exact B0|].
+    destruct (_ <? _).
+    { apply BC_apply_err_st. cbn [fst]. eapply BC_ckn; [|exact B0]. apply CKN_upd_chan. intros ch0. right. reflexivity. }
+    assert (H1 : forall f, BC (upd_msg (ensure_chan s c h) u f))
+      by (intros f; eapply BC_ckn; [apply CKN_same; [apply conns_upd_msg|apply next_uid_upd_msg']|exact B0]).
+    destruct (_ <? _); [apply H1|].
+    eapply BC_ckn; [apply CKN_finish_publish|apply H1].
+  - (* LConsumerTurn *) eapply BC_vle; [|exact Hb]. apply V_consumer_turn. apply vle_refl.
+  - (* LQueueLoop *) cbn [fst]. eapply BC_vle; [|exact Hb]. apply V_queue_loop_turn. apply vle_refl.
+  - (* LAutoDelete *)
+    destruct (autodel s) as [|qn rest]; [exact Hb|].
+    assert (H0 : vle s (s <| autodel := rest |>)) by (vs; apply vle_refl).
+    destruct (get_queue _ qn) as [qu0|]; [|eapply BC_vle; eauto]. destruct (q_autodel qu0); [|eapply BC_vle; eauto].
+    pose proof (V_vhost_delete_queue s (negb (fx_delete_checks_first fx)) _ qn true false H0) as Hd.
+    destruct (vhost_delete_queue _ (s <| autodel := rest |>) qn true false) as [[s1 e1] r1]. eapply BC_vle; eauto.
+  - (* LPersistTick *)
+    cbn [fst]. left. apply fold_left_preserves.
+    + intros s0 k H0. eapply CKN_trans; [exact H0|apply CKN_store_confirm].
+    + apply CKN_same; reflexivity.
+  - (* LRelay *)
+    destruct (relay s) as [|u rest]; [exact Hb|].
+    assert (H0 : CKN s (s <| relay := rest |>)) by (apply CKN_same; reflexivity).
+    destruct (get_msg _ u) as [m|]; cbn [fst]; [|left; exact H0].
+    destruct (m_conf m) as [[[? ?] ?]|]; cbn [fst]; [|left; exact H0].
+    left. eapply CKN_trans; [exact H0|apply CKN_add_confirm].
+  - (* LConfirmTick *)
+    destruct (get_chan s c h) as [ch|] eqn:Ech; [|exact Hb]. destruct (negb _); [exact Hb|].
+    destruct (ch_status ch); cbn [fst]; left; (eapply CKN_set_chan; [exact Ech|left; reflexivity]).
+  - (* LSocketLoss *)
+    pose proof (BC_conn_close s c Hb) as Hc. destruct (conn_close cfg fx s c) as [s1 e1]. exact Hc.
+  - (* LAccept *) destruct (get_conn s c) eqn:Ec; cbn [fst]; [exact Hb|]. left. apply CKN_newconn. exact Ec.
+  - (* LBadMethod *)
+    destruct (get_conn s c) as [cn0|]; [|exact Hb].
+    destruct (negb _ && negb _)%bool; [apply BC_conn_close; auto|].
+    apply BC_apply_err_st. cbn [fst]. apply Hens.
+  - (* LHeartbeat *)
+    destruct (get_conn s c); [|exact Hb]. destruct (h =? 0); [exact Hb|apply BC_conn_close; auto].
+  - (* LRestart *) left. apply CKN_restart.
+Qed.
+
+(* what the three handlers of the confirm machinery do to the current messages *)
+Lemma HS_cases c h m : confirm_method m = true ->
+  CKN s (HS c h m) \/
+  (exists ex k md im, m = MPublish ex k md im /\ next_uid (HS c h m) = next_uid s + 1 /\
+     forall c' h' w, cur_of (HS c h m) c' h' = Some w -> cur_of s c' h' = Some w \/ (w = next_uid s /\ c' = c /\ h' = h)).
+Proof.
+  intros Hm. unfold HS. set (s1 := ensure_chan s c h). assert (H1 : CKN s s1) by apply CKN_ensure.
+  unfold handle_method. destruct (get_chan s1 c h) as [ch|] eqn:Hch; [|left; exact H1].
+  destruct m; try discriminate; unfold ok, refuse.
+  - (* MChannelOpen *)
+    left. eapply CKN_trans; [exact H1|].
+    destruct (ch_status ch); cbn [fst]; try apply CKN_refl; try (eapply CKN_set_chan; [exact Hch|left; reflexivity]).
+    eapply CKN_set_chan; [exact Hch|]. destruct (fx_reopen_resets fx); [right|left]; reflexivity.
+  - (* MPublish *)
+    destruct imm; [left; exact H1|]. destruct (alookup _ _ _); [|left; exact H1].
+    right. exists ex, key, mand, false. split; [reflexivity|].
+    destruct (if ch_confirm ch then _ else _) as [conf ch'] eqn:Ecf.
+    cbn [fst]. split.
+    + rewrite (proj1 (next_set_chan _ _ _ _)). cbn. rewrite (proj1 H1). reflexivity.
+    + intros c' h' w. unfold cur_of. rewrite get_chan_set_chan.
+      assert (Eg : forall c0 h0, get_chan (s1 <| heap := aset N.eqb (next_uid s1)
+                  {| m_mid := 0; m_ex := ex; m_key := key; m_mand := mand; m_pers := false; m_has_header := false; m_hsize := 0; m_size := 0;
+                     m_body := []; m_dc := 0; m_conf := conf; m_inst := ch_inst ch'; m_expected := 0; m_actual := 0 |} (heap s1) |>
+                  <| next_uid := next_uid s1 + 1 |>) c0 h0 = get_chan s1 c0 h0) by reflexivity.
+      unfold get_conn at 1. cbn [conns set]. fold (get_conn s1 c).
+      pose proof (get_chan_conn _ _ _ _ Hch) as Hn. destruct (get_conn s1 c); [|congruence].
+      destruct ((c' =? c) && (h' =? h)) eqn:Eb.
+      * apply andb_prop in Eb. destruct Eb as [E1 E2]. apply N.eqb_eq in E1, E2. subst.
+        cbn. intros Hw. inversion Hw. right. rewrite (proj1 H1). auto.
+      * rewrite Eg. intros Hw. left. apply (proj2 H1). unfold cur_of. exact Hw.
+  - (* MConfirmSelect *)
+    left. eapply CKN_trans; [exact H1|]. cbn [fst]. eapply CKN_set_chan; [exact Hch|left; reflexivity].
+Qed.
+End CurStep.
+
+(* every label: a current message after the step is the channel's current message before it, or the id that the
+   basic.publish frame of this label allocated for this channel; the id counter moves only then, by one *)
+Theorem cur_step cfg fx s l :
+  (next_uid (fst (step cfg fx s l)) = next_uid s \/
+   (next_uid (fst (step cfg fx s l)) = next_uid s + 1 /\ exists c h ex k md im, l = LMethod c h (MPublish ex k md im))) /\
+  forall c h w, cur_of (fst (step cfg fx s l)) c h = Some w ->
+    cur_of s c h = Some w \/ (w = next_uid s /\ exists ex k md im, l = LMethod c h (MPublish ex k md im)).
+Proof.
+  destruct (BC_step cfg fx s l) as [[A B]|(c0 & h0 & m & El & Hm & [A B])].
+  - split; [left; exact A|]. intros c h w Hw. left. apply B. exact Hw.
+  - destruct (HS_cases cfg fx s c0 h0 m Hm) as [[A1 B1]|(ex & k & md & im & -> & A1 & B1)].
+    + split; [left; congruence|]. intros c h w Hw. left. apply B1. apply B. exact Hw.
+    + split; [right; split; [congruence|exists c0, h0, ex, k, md, im; exact El]|].
+      intros c h w Hw. apply B in Hw. destruct (B1 c h w Hw) as [Hc|(-> & -> & ->)]; [left; exact Hc|].
+      right. split; [reflexivity|]. exists ex, k, md, im. exact El.
+Qed.
+
+Theorem cur_only_by_publish_holds cfg fx s l c h w :
+  cur_of (fst (step cfg fx s l)) c h = Some w ->
+  cur_of s c h = Some w \/ (w = next_uid s /\ exists ex k md im, l = LMethod c h (MPublish ex k md im)).
+Proof. apply (cur_step cfg fx s l). Qed.
+
+(* 5b. the order of one channel's publishes.  [cur_only_by_publish] was a hypothesis of the first version of this file; it is
+   now proved (cur_only_by_publish_proved, from cur_step above); the theorems that took it as a premise keep their names with
+   the suffix _partial, the unconditional ones follow them. *)
 Definition cur_only_by_publish : Prop := forall cfg fx s l c h w,
   cur_of (fst (step cfg fx s l)) c h = Some w ->
   cur_of s c h = Some w \/ (w = next_uid s /\ exists ex k md im, l = LMethod c h (MPublish ex k md im)).
@@ -1354,6 +1859,57 @@ Proof.
   destruct (done_at g u1) as [m|] eqn:Em; [|congruence].
   apply (first_deliveries_in_publication_order cfg fx ls l qn qu u1 u2 m Hfx Hq Hin Hn1 Em); [|exact Hn2].
   exact (same_channel_sequential_partial cfg fx ls u1 u2 p m CO Hfx P1 P2 Hlt Hd2 Em).
+Qed.
+
+Theorem cur_only_by_publish_proved : cur_only_by_publish.
+Proof. intros cfg fx s l c h w. apply cur_only_by_publish_holds. Qed.
+
+(* every waiting message, every unsettled delivery and every key of the message store belongs to a message whose publish
+   completed (it has a completion point) *)
+Theorem waiting_has_done_at cfg fx ls qn qu x : fx_clear_current fx = true ->
+  let s := fst (grun cfg fx (init cfg) ghost0 ls) in
+  let g := snd (grun cfg fx (init cfg) ghost0 ls) in
+  get_queue s qn = Some qu -> In x (q_ready qu) -> done_at g x <> None.
+Proof.
+  intros Hfx s g Hq Hx. destruct (FI_reachable cfg fx ls Hfx) as ((Hiv & _) & _).
+  destruct Hiv as (A & _). destruct (allq_get _ _ _ _ A Hq) as [_ Hb]. apply (Hb x Hx).
+Qed.
+Theorem unsettled_and_stored_have_done_at cfg fx ls : fx_clear_current fx = true ->
+  let s := fst (grun cfg fx (init cfg) ghost0 ls) in
+  let g := snd (grun cfg fx (init cfg) ghost0 ls) in
+  (forall c h ch e, get_chan s c h = Some ch -> In e (ch_unacked ch) -> D g (u_qid e) (u_msg e) /\ done_at g (u_msg e) <> None) /\
+  (forall k, In k (st_add s ++ st_db s) -> done_at g (fst k) <> None).
+Proof.
+  intros Hfx s g. destruct (FI_reachable cfg fx ls Hfx) as ((Hiv & _) & _). destruct Hiv as (_ & B & C). split.
+  - intros c h ch e Hg He. destruct (B c h ch Hg e He) as (B1 & _ & B3). split; assumption.
+  - exact C.
+Qed.
+
+(* two messages allocated by basic.publish frames of one channel, the later one completely published: the earlier one, if it
+   was completed at all, was complete before the later one began *)
+Theorem same_channel_sequential cfg fx ls u1 u2 p m :
+  fx_clear_current fx = true ->
+  let g := snd (grun cfg fx (init cfg) ghost0 ls) in
+  pub_of g u1 = Some p -> pub_of g u2 = Some p -> u1 < u2 -> done_at g u2 <> None ->
+  done_at g u1 = Some m -> m <= u2.
+Proof. intros Hfx. apply (same_channel_sequential_partial cfg fx ls u1 u2 p m cur_only_by_publish_proved Hfx). Qed.
+
+(* C03 for ONE PUBLISHER CHANNEL: no step from a reachable state delivers u2 from a queue object for the first time while u1,
+   allocated earlier by a basic.publish of the same channel, still waits in that queue object and has never been delivered from it *)
+Theorem first_deliveries_same_channel cfg fx ls l qn qu u1 u2 p :
+  fx_clear_current fx = true ->
+  let s := fst (grun cfg fx (init cfg) ghost0 ls) in
+  let g := snd (grun cfg fx (init cfg) ghost0 ls) in
+  pub_of g u1 = Some p -> pub_of g u2 = Some p -> u1 < u2 ->
+  get_queue s qn = Some qu -> In u1 (q_ready qu) -> ~ D g (q_id qu) u1 ->
+  ~ D g (q_id qu) u2 ->
+  ~ D (gstep s l (fst (step cfg fx s l)) (snd (step cfg fx s l)) g) (q_id qu) u2.
+Proof.
+  intros Hfx s g P1 P2 Hlt Hq Hin Hn1 Hn2 Hd2.
+  pose proof (waiting_has_done_at cfg fx ls qn qu u1 Hfx Hq Hin) as Hd1.
+  destruct (recorded_delivery_is_head _ _ _ _ _ _ _ Hd2 Hn2) as (q2 & qu2 & rest2 & Hq2 & _ & Er2).
+  assert (Hdu2 : done_at g u2 <> None) by (apply (waiting_has_done_at cfg fx ls q2 qu2 u2 Hfx Hq2); rewrite Er2; left; reflexivity).
+  exact (first_deliveries_same_channel_partial cfg fx ls l qn qu u1 u2 p cur_only_by_publish_proved Hfx P1 P2 Hlt Hd1 Hdu2 Hq Hin Hn1 Hn2 Hd2).
 Qed.
 
 (* ================================================================== *)
@@ -1488,6 +2044,137 @@ Proof.
   destruct H2 as [H2|H2]; [left|right; exists blk]; (rewrite <- H2; apply R_same_queues; reflexivity).
 Qed.
 
+(* the exact block: the connection's channels are closed in descending channel-number order; each channel's unsettled
+   deliveries go back in delivery-tag order, evaluated when that channel is closed; a channel closed later ends up further
+   in front.  (Channel 0 carries no deliveries.) *)
+Definition close_block (s : state) (c h : N) (q : string) : list N :=
+  if 0 <? h then map u_msg (filter (goes_to s q) (rev (sort_desc (U s c h)))) else [].
+Fixpoint close_blocks (cfg : config) (s : state) (c : N) (ids : list N) (q : string) : list N :=
+  match ids with
+  | [] => []
+  | h :: t => close_blocks cfg (channel_close cfg s c h) c t q ++ close_block s c h q
+  end.
+
+Lemma channel_close_block cfg s c h q l : R s q = Some l -> R (channel_close cfg s c h) q = Some (close_block s c h q ++ l).
+Proof.
+  intros Hr. unfold close_block. destruct (0 <? h) eqn:Eh.
+  - apply N.ltb_lt in Eh. rewrite (channel_close_returns cfg s c h q Eh), Hr. reflexivity.
+  - cbn [app]. rewrite <- Hr. unfold channel_close. destruct (get_chan s c h) as [ch|]; [|reflexivity]. rewrite Eh.
+    rewrite (R_same_queues _ _ q (queues_upd_chan _ _ _ _)). rewrite (R_same_queues _ _ q (queues_upd_chan _ _ _ _)).
+    generalize (ch_consumers ch). intros l0. clear Hr. revert s. induction l0 as [|x t IH]; intros s; cbn [fold_left]; [reflexivity|].
+    rewrite IH. apply R_consumer_stop.
+Qed.
+
+Lemma fold_close_blocks cfg c q ids : forall s l, R s q = Some l ->
+  R (fold_left (fun s h => channel_close cfg s c h) ids s) q = Some (close_blocks cfg s c ids q ++ l).
+Proof.
+  induction ids as [|h t IH]; intros s l Hr; cbn [fold_left close_blocks]; [exact Hr|].
+  rewrite (IH _ _ (channel_close_block cfg s c h q l Hr)). rewrite app_assoc. reflexivity.
+Qed.
+
+Theorem conn_close_returns_blocks cfg fx s c cn q l :
+  get_conn s c = Some cn -> R s q = Some l ->
+  R (fst (conn_close cfg fx s c)) q = None \/
+  R (fst (conn_close cfg fx s c)) q = Some (close_blocks cfg s c (sort_desc_N (map fst (cn_chans cn))) q ++ l).
+Proof.
+  intros Hc Hr. unfold conn_close. rewrite Hc.
+  set (s1 := fold_left _ _ s).
+  assert (H1 : R s1 q = Some (close_blocks cfg s c (sort_desc_N (map fst (cn_chans cn))) q ++ l)) by (subst s1; apply fold_close_blocks; exact Hr).
+  clearbody s1. set (blk := close_blocks cfg s c (sort_desc_N (map fst (cn_chans cn))) q) in *.
+  set (owned := map fst (filter (fun kv => q_excl (snd kv) && (q_owner (snd kv) =? c)) (queues s1))).
+  assert (H2 : forall l0 s0 evs, R s0 q = None \/ R s0 q = Some (blk ++ l) ->
+     R (fst (fold_left (fun acc qn => let '(s, evs) := acc in
+            let '(s', e, _) := vhost_delete_queue (negb (fx_delete_checks_first fx)) s qn false false in (s', evs ++ e)) l0 (s0, evs))) q = None \/
+     R (fst (fold_left (fun acc qn => let '(s, evs) := acc in
+            let '(s', e, _) := vhost_delete_queue (negb (fx_delete_checks_first fx)) s qn false false in (s', evs ++ e)) l0 (s0, evs))) q = Some (blk ++ l)).
+  { induction l0 as [|x t IH]; intros s0 evs H0; cbn [fold_left]; [exact H0|].
+    pose proof (vhost_delete_suffix (negb (fx_delete_checks_first fx)) s0 x false false q) as Hd.
+    destruct (vhost_delete_queue (negb (fx_delete_checks_first fx)) s0 x false false) as [[s2 e2] r2]. cbn [fst] in Hd.
+    apply IH. destruct Hd as [Hd|Hd]; [rewrite Hd; exact H0|left; exact Hd]. }
+  specialize (H2 owned s1 [] (or_intror H1)).
+  destruct (fold_left _ owned (s1, [])) as [s2 e2]. cbn [fst] in *.
+  destruct H2 as [H2|H2]; [left|right]; (rewrite <- H2; apply R_same_queues; reflexivity).
+Qed.
+
+Theorem socket_loss_returns_blocks cfg fx s c cn q l :
+  get_conn s c = Some cn -> R s q = Some l ->
+  R (fst (step cfg fx s (LSocketLoss c))) q = None \/
+  R (fst (step cfg fx s (LSocketLoss c))) q = Some (close_blocks cfg s c (sort_desc_N (map fst (cn_chans cn))) q ++ l).
+Proof.
+  intros Hc Hr. cbn [step]. pose proof (conn_close_returns_blocks cfg fx s c cn q l Hc Hr) as H.
+  destruct (conn_close cfg fx s c) as [s1 e1]. exact H.
+Qed.
+
+(* the blocks read off the state BEFORE the teardown, when the connection's channel numbers are distinct (an invariant of the
+   reachable states of the repaired broker: BrokerConserve vi_hkeys; not re-proved here, hence a hypothesis): closing one
+   channel changes neither another channel's unsettled deliveries nor the identity / activity of any queue *)
+Lemma queues_dec_qos cfg s c h u : queues (dec_qos_and_consume_next cfg s c h u) = queues s.
+Proof.
+  unfold dec_qos_and_consume_next. destruct (get_chan s c h) as [ch|]; [|reflexivity].
+  rewrite queues_wake_consumers.
+  destruct (find_consumer ch (u_ctag u)).
+  - destruct (cfg_rabbit cfg); [rewrite !queues_upd_chan; reflexivity|].
+    destruct (get_conn _ c); cbn; rewrite ?queues_upd_chan; reflexivity.
+  - destruct (get_conn _ c); cbn; rewrite ?queues_upd_chan; reflexivity.
+Qed.
+
+Lemma channel_close_frame cfg s c h :
+  (forall q, QA (channel_close cfg s c h) q = QA s q) /\ (forall h', h' <> h -> U (channel_close cfg s c h) c h' = U s c h').
+Proof.
+  unfold channel_close. destruct (get_chan s c h) as [ch|] eqn:Ech; [|split; reflexivity].
+  set (s2 := upd_chan (fold_left _ _ s) c h _).
+  assert (A2 : forall q, QA s2 q = QA s q).
+  { intros q. subst s2. rewrite (QA_same_queues _ _ q (queues_upd_chan _ _ _ _)).
+    generalize (ch_consumers ch). intros l0. revert s Ech. induction l0 as [|x t IH]; intros s Ech; cbn [fold_left]; [reflexivity|].
+    assert (Hg : forall l1 st, QA (fold_left (fun s cm => consumer_stop s c h (c_tag cm)) l1 st) q = QA st q).
+    { induction l1 as [|y l2 IH1]; intros st; cbn [fold_left]; auto. rewrite IH1. apply QA_consumer_stop. }
+    rewrite Hg. apply QA_consumer_stop. }
+  assert (U2 : forall h', U s2 c h' = U s c h').
+  { intros h'. subst s2. rewrite U_upd_chan_keep by reflexivity.
+    assert (Hg : forall l1 st, U (fold_left (fun s cm => consumer_stop s c h (c_tag cm)) l1 st) c h' = U st c h').
+    { induction l1 as [|y l2 IH1]; intros st; cbn [fold_left]; auto. rewrite IH1. apply U_consumer_stop. }
+    apply Hg. }
+  clearbody s2. split.
+  - intros q. rewrite (QA_same_queues _ _ q (queues_upd_chan _ _ _ _)). destruct (0 <? h); [|apply A2].
+    rewrite <- A2. unfold handle_reject. destruct (get_chan s2 c h) as [ch2|]; [|reflexivity]. cbn [fst].
+    match goal with |- QA (fold_left ?F ?sel ?st) q = _ => assert (Hd : forall sel0 st0, QA (fold_left F sel0 st0) q = QA st0 q) end.
+    { induction sel0 as [|y l2 IH1]; intros st0; cbn [fold_left]; auto. rewrite IH1. apply QA_same_queues. apply queues_dec_qos. }
+    rewrite Hd. apply (fold_requeue c h).
+  - intros h' Hne. rewrite U_upd_chan_keep by reflexivity. destruct (0 <? h); [|apply U2].
+    rewrite <- U2. unfold handle_reject. destruct (get_chan s2 c h) as [ch2|]; [|reflexivity]. cbn [fst].
+    rewrite U_fold_dec. apply (fold_del_reject c h true). intros E. inversion E. contradiction.
+Qed.
+
+Definition blocks_from (s : state) (c : N) (ids : list N) (q : string) : list N :=
+  fold_right (fun h acc => acc ++ close_block s c h q) [] ids.
+
+Lemma close_block_ext s s' c h q : U s' c h = U s c h -> QA s' q = QA s q -> close_block s' c h q = close_block s c h q.
+Proof.
+  intros EU EQ. unfold close_block. destruct (0 <? h); [|reflexivity]. rewrite EU. f_equal. apply filter_ext. intros u. apply goes_to_ext. exact EQ.
+Qed.
+
+Lemma close_blocks_from cfg s c q ids : NoDup ids -> forall s',
+  (forall h, In h ids -> U s' c h = U s c h) -> QA s' q = QA s q ->
+  close_blocks cfg s' c ids q = blocks_from s c ids q.
+Proof.
+  induction 1 as [|h t Hni Hnd IH]; intros s' HU HQ; cbn [close_blocks blocks_from fold_right]; [reflexivity|].
+  destruct (channel_close_frame cfg s' c h) as [FQ0 FU]. f_equal.
+  - apply IH.
+    + intros h' Hin. rewrite FU; [apply HU; right; exact Hin|]. intros E. subst. contradiction.
+    + rewrite FQ0. exact HQ.
+  - apply close_block_ext; [apply HU; left; reflexivity|exact HQ].
+Qed.
+
+Theorem conn_close_returns_blocks_of_state cfg fx s c cn q l :
+  get_conn s c = Some cn -> NoDup (map fst (cn_chans cn)) -> R s q = Some l ->
+  R (fst (conn_close cfg fx s c)) q = None \/
+  R (fst (conn_close cfg fx s c)) q = Some (blocks_from s c (sort_desc_N (map fst (cn_chans cn))) q ++ l).
+Proof.
+  intros Hc Hk Hr. rewrite <- (close_blocks_from cfg s c q (sort_desc_N (map fst (cn_chans cn)))) with (s' := s); auto.
+  - apply conn_close_returns_blocks; assumption.
+  - eapply Permutation_NoDup; [apply Permutation_sym; apply sort_desc_N_perm|exact Hk].
+Qed.
+
 Theorem socket_loss_keeps_suffix cfg fx s c q l :
   R s q = Some l ->
   R (fst (step cfg fx s (LSocketLoss c))) q = None \/ exists blk, R (fst (step cfg fx s (LSocketLoss c))) q = Some (blk ++ l).
@@ -1505,7 +2192,7 @@ Fixpoint FQb_along (cfg : config) (fx : fixes) (s : state) (g : ghost) (ls : lis
              end.
 Definition ready_list (s : state) (q : string) : list N := match get_queue s q with Some qu => q_ready qu | None => [] end.
 
-(* a boolean rendering of [cur_only_by_publish] for one step / along a run (evidence for the unproved hypothesis of part 5) *)
+(* a boolean rendering of [cur_only_by_publish] for one step / along a run (a check of part 5a by evaluation) *)
 Definition co_check (cfg : config) (fx : fixes) (s : state) (l : label) : bool :=
   let s' := fst (step cfg fx s l) in
   forallb (fun kc : N * conn => forallb (fun kh : N * channel =>
